@@ -1385,33 +1385,17 @@ let g_Attributes_encodeTo =
 (** val g_Client_Exchange : guard list **)
 
 let g_Client_Exchange =
-  { gexpr = (String ((Ascii (true, true, false, false, false, true, true,
+  { gexpr = (String ((Ascii (false, false, true, false, false, true, false,
+    false)), (String ((Ascii (false, true, false, false, true, true, true,
     false)), (String ((Ascii (false, true, true, true, false, true, false,
     false)), (String ((Ascii (false, true, false, false, true, false, true,
     false)), (String ((Ascii (true, false, true, false, false, true, true,
     false)), (String ((Ascii (false, false, true, false, true, true, true,
     false)), (String ((Ascii (false, true, false, false, true, true, true,
     false)), (String ((Ascii (true, false, false, true, true, true, true,
-    false)), EmptyString)))))))))))))); gop = OpGT; glit = Z0 } :: ({ gexpr =
-    (String ((Ascii (true, true, false, false, false, true, true, false)),
-    (String ((Ascii (false, true, true, true, false, true, false, false)),
-    (String ((Ascii (true, false, true, true, false, false, true, false)),
-    (String ((Ascii (true, false, false, false, false, true, true, false)),
-    (String ((Ascii (false, false, false, true, true, true, true, false)),
-    (String ((Ascii (false, false, false, false, true, false, true, false)),
-    (String ((Ascii (true, false, false, false, false, true, true, false)),
-    (String ((Ascii (true, true, false, false, false, true, true, false)),
-    (String ((Ascii (true, true, false, true, false, true, true, false)),
-    (String ((Ascii (true, false, true, false, false, true, true, false)),
-    (String ((Ascii (false, false, true, false, true, true, true, false)),
-    (String ((Ascii (true, false, true, false, false, false, true, false)),
-    (String ((Ascii (false, true, false, false, true, true, true, false)),
-    (String ((Ascii (false, true, false, false, true, true, true, false)),
-    (String ((Ascii (true, true, true, true, false, true, true, false)),
-    (String ((Ascii (false, true, false, false, true, true, true, false)),
-    (String ((Ascii (true, true, false, false, true, true, true, false)),
-    EmptyString)))))))))))))))))))))))))))))))))); gop = OpGT; glit =
-    Z0 } :: ({ gexpr = (String ((Ascii (true, true, false, false, false,
+    false)), EmptyString)))))))))))))))); gop = OpGT; glit =
+    Z0 } :: ({ gexpr = (String ((Ascii (false, false, true, false, false,
+    true, false, false)), (String ((Ascii (false, true, false, false, true,
     true, true, false)), (String ((Ascii (false, true, true, true, false,
     true, false, false)), (String ((Ascii (true, false, true, true, false,
     false, true, false)), (String ((Ascii (true, false, false, false, false,
@@ -1428,8 +1412,28 @@ let g_Client_Exchange =
     true, true, false)), (String ((Ascii (true, true, true, true, false,
     true, true, false)), (String ((Ascii (false, true, false, false, true,
     true, true, false)), (String ((Ascii (true, true, false, false, true,
-    true, true, false)), EmptyString)))))))))))))))))))))))))))))))))); gop =
-    OpGT; glit = Z0 } :: []))
+    true, true, false)), EmptyString))))))))))))))))))))))))))))))))))));
+    gop = OpGT; glit = Z0 } :: ({ gexpr = (String ((Ascii (false, false,
+    true, false, false, true, false, false)), (String ((Ascii (false, true,
+    false, false, true, true, true, false)), (String ((Ascii (false, true,
+    true, true, false, true, false, false)), (String ((Ascii (true, false,
+    true, true, false, false, true, false)), (String ((Ascii (true, false,
+    false, false, false, true, true, false)), (String ((Ascii (false, false,
+    false, true, true, true, true, false)), (String ((Ascii (false, false,
+    false, false, true, false, true, false)), (String ((Ascii (true, false,
+    false, false, false, true, true, false)), (String ((Ascii (true, true,
+    false, false, false, true, true, false)), (String ((Ascii (true, true,
+    false, true, false, true, true, false)), (String ((Ascii (true, false,
+    true, false, false, true, true, false)), (String ((Ascii (false, false,
+    true, false, true, true, true, false)), (String ((Ascii (true, false,
+    true, false, false, false, true, false)), (String ((Ascii (false, true,
+    false, false, true, true, true, false)), (String ((Ascii (false, true,
+    false, false, true, true, true, false)), (String ((Ascii (true, true,
+    true, true, false, true, true, false)), (String ((Ascii (false, true,
+    false, false, true, true, true, false)), (String ((Ascii (true, true,
+    false, false, true, true, true, false)),
+    EmptyString)))))))))))))))))))))))))))))))))))); gop = OpGT; glit =
+    Z0 } :: []))
 
 (** val g_Date : guard list **)
 
@@ -1438,9 +1442,10 @@ let g_Date =
     false)), (String ((Ascii (true, false, true, false, false, true, true,
     false)), (String ((Ascii (false, true, true, true, false, true, true,
     false)), (String ((Ascii (false, false, false, true, false, true, false,
-    false)), (String ((Ascii (true, false, false, false, false, true, true,
+    false)), (String ((Ascii (false, false, true, false, false, true, false,
+    false)), (String ((Ascii (false, false, false, false, true, true, false,
     false)), (String ((Ascii (true, false, false, true, false, true, false,
-    false)), EmptyString)))))))))))); gop = OpNE; glit = (Zpos (XO (XO
+    false)), EmptyString)))))))))))))); gop = OpNE; glit = (Zpos (XO (XO
     XH))) } :: []
 
 (** val g_IFID : guard list **)
@@ -1450,9 +1455,10 @@ let g_IFID =
     false)), (String ((Ascii (true, false, true, false, false, true, true,
     false)), (String ((Ascii (false, true, true, true, false, true, true,
     false)), (String ((Ascii (false, false, false, true, false, true, false,
-    false)), (String ((Ascii (true, false, false, false, false, true, true,
+    false)), (String ((Ascii (false, false, true, false, false, true, false,
+    false)), (String ((Ascii (false, false, false, false, true, true, false,
     false)), (String ((Ascii (true, false, false, true, false, true, false,
-    false)), EmptyString)))))))))))); gop = OpNE; glit = (Zpos (XO (XO (XO
+    false)), EmptyString)))))))))))))); gop = OpNE; glit = (Zpos (XO (XO (XO
     XH)))) } :: []
 
 (** val g_IPAddr : guard list **)
@@ -1462,9 +1468,10 @@ let g_IPAddr =
     false)), (String ((Ascii (true, false, true, false, false, true, true,
     false)), (String ((Ascii (false, true, true, true, false, true, true,
     false)), (String ((Ascii (false, false, false, true, false, true, false,
-    false)), (String ((Ascii (true, false, false, false, false, true, true,
+    false)), (String ((Ascii (false, false, true, false, false, true, false,
+    false)), (String ((Ascii (false, false, false, false, true, true, false,
     false)), (String ((Ascii (true, false, false, true, false, true, false,
-    false)), EmptyString)))))))))))); gop = OpNE; glit = (Zpos (XO (XO
+    false)), EmptyString)))))))))))))); gop = OpNE; glit = (Zpos (XO (XO
     XH))) } :: []
 
 (** val g_IPv6Addr : guard list **)
@@ -1474,9 +1481,10 @@ let g_IPv6Addr =
     false)), (String ((Ascii (true, false, true, false, false, true, true,
     false)), (String ((Ascii (false, true, true, true, false, true, true,
     false)), (String ((Ascii (false, false, false, true, false, true, false,
-    false)), (String ((Ascii (true, false, false, false, false, true, true,
+    false)), (String ((Ascii (false, false, true, false, false, true, false,
+    false)), (String ((Ascii (false, false, false, false, true, true, false,
     false)), (String ((Ascii (true, false, false, true, false, true, false,
-    false)), EmptyString)))))))))))); gop = OpNE; glit = (Zpos (XO (XO (XO
+    false)), EmptyString)))))))))))))); gop = OpNE; glit = (Zpos (XO (XO (XO
     (XO XH))))) } :: []
 
 (** val g_IPv6Prefix : guard list **)
@@ -1486,37 +1494,60 @@ let g_IPv6Prefix =
     false)), (String ((Ascii (true, false, true, false, false, true, true,
     false)), (String ((Ascii (false, true, true, true, false, true, true,
     false)), (String ((Ascii (false, false, false, true, false, true, false,
-    false)), (String ((Ascii (true, false, false, false, false, true, true,
+    false)), (String ((Ascii (false, false, true, false, false, true, false,
+    false)), (String ((Ascii (false, false, false, false, true, true, false,
     false)), (String ((Ascii (true, false, false, true, false, true, false,
-    false)), EmptyString)))))))))))); gop = OpLT; glit = (Zpos (XO
+    false)), EmptyString)))))))))))))); gop = OpLT; glit = (Zpos (XO
     XH)) } :: ({ gexpr = (String ((Ascii (false, false, true, true, false,
     true, true, false)), (String ((Ascii (true, false, true, false, false,
     true, true, false)), (String ((Ascii (false, true, true, true, false,
     true, true, false)), (String ((Ascii (false, false, false, true, false,
-    true, false, false)), (String ((Ascii (true, false, false, false, false,
-    true, true, false)), (String ((Ascii (true, false, false, true, false,
-    true, false, false)), EmptyString)))))))))))); gop = OpGT; glit = (Zpos
-    (XO (XI (XO (XO XH))))) } :: ({ gexpr = (String ((Ascii (false, false,
-    false, false, true, true, true, false)), (String ((Ascii (false, true,
-    false, false, true, true, true, false)), (String ((Ascii (true, false,
-    true, false, false, true, true, false)), (String ((Ascii (false, true,
-    true, false, false, true, true, false)), (String ((Ascii (true, false,
-    false, true, false, true, true, false)), (String ((Ascii (false, false,
-    false, true, true, true, true, false)), (String ((Ascii (false, false,
-    true, true, false, false, true, false)), (String ((Ascii (true, false,
-    true, false, false, true, true, false)), (String ((Ascii (false, true,
-    true, true, false, true, true, false)), (String ((Ascii (true, true,
-    true, false, false, true, true, false)), (String ((Ascii (false, false,
+    true, false, false)), (String ((Ascii (false, false, true, false, false,
+    true, false, false)), (String ((Ascii (false, false, false, false, true,
+    true, false, false)), (String ((Ascii (true, false, false, true, false,
+    true, false, false)), EmptyString)))))))))))))); gop = OpGT; glit = (Zpos
+    (XO (XI (XO (XO XH))))) } :: ({ gexpr = (String ((Ascii (true, false,
+    false, true, false, true, true, false)), (String ((Ascii (false, true,
+    true, true, false, true, true, false)), (String ((Ascii (false, false,
     true, false, true, true, true, false)), (String ((Ascii (false, false,
-    false, true, false, true, true, false)),
-    EmptyString)))))))))))))))))))))))); gop = OpGT; glit = (Zpos (XO (XO (XO
-    (XO (XO (XO (XO XH)))))))) } :: ({ gexpr = (String ((Ascii (false, true,
+    false, true, false, true, false, false)), (String ((Ascii (false, false,
+    true, false, false, true, false, false)), (String ((Ascii (false, false,
+    false, false, true, true, false, false)), (String ((Ascii (true, true,
+    false, true, true, false, true, false)), (String ((Ascii (true, false,
+    false, false, true, true, false, false)), (String ((Ascii (true, false,
+    true, true, true, false, true, false)), (String ((Ascii (true, false,
+    false, true, false, true, false, false)),
+    EmptyString)))))))))))))))))))); gop = OpGT; glit = (Zpos (XO (XO (XO (XO
+    (XO (XO (XO XH)))))))) } :: ({ gexpr = (String ((Ascii (false, true,
     false, false, false, true, true, false)), (String ((Ascii (true, false,
     false, true, false, true, true, false)), (String ((Ascii (false, false,
     true, false, true, true, true, false)), EmptyString)))))); gop = OpLT;
     glit = (Zpos (XO (XO (XO XH)))) } :: ({ gexpr = (String ((Ascii (true,
-    false, false, true, false, true, true, false)), (String ((Ascii (false,
-    false, false, false, true, true, true, false)), (String ((Ascii (true,
+    false, true, true, false, true, true, false)), (String ((Ascii (true,
+    false, false, false, false, true, true, false)), (String ((Ascii (true,
+    true, false, true, false, true, true, false)), (String ((Ascii (true,
+    false, true, false, false, true, true, false)), (String ((Ascii (false,
+    false, false, true, false, true, false, false)), (String ((Ascii (false,
+    true, true, true, false, true, true, false)), (String ((Ascii (true,
+    false, true, false, false, true, true, false)), (String ((Ascii (false,
+    false, true, false, true, true, true, false)), (String ((Ascii (false,
+    true, true, true, false, true, false, false)), (String ((Ascii (true,
+    false, false, true, false, false, true, false)), (String ((Ascii (false,
+    false, false, false, true, false, true, false)), (String ((Ascii (false,
+    false, true, true, false, true, false, false)), (String ((Ascii (false,
+    false, false, false, false, true, false, false)), (String ((Ascii (false,
+    true, true, true, false, true, true, false)), (String ((Ascii (true,
+    false, true, false, false, true, true, false)), (String ((Ascii (false,
+    false, true, false, true, true, true, false)), (String ((Ascii (false,
+    true, true, true, false, true, false, false)), (String ((Ascii (true,
+    false, false, true, false, false, true, false)), (String ((Ascii (false,
+    false, false, false, true, false, true, false)), (String ((Ascii (false,
+    true, true, false, true, true, true, false)), (String ((Ascii (false,
+    true, true, false, true, true, false, false)), (String ((Ascii (false,
+    false, true, true, false, true, true, false)), (String ((Ascii (true,
+    false, true, false, false, true, true, false)), (String ((Ascii (false,
+    true, true, true, false, true, true, false)), (String ((Ascii (true,
+    false, false, true, false, true, false, false)), (String ((Ascii (true,
     true, false, true, true, false, true, false)), (String ((Ascii (true,
     true, true, true, false, true, true, false)), (String ((Ascii (true,
     true, false, false, false, true, true, false)), (String ((Ascii (false,
@@ -1543,7 +1574,7 @@ let g_IPv6Prefix =
     false, true, false, true, true, true, false)), (String ((Ascii (true,
     false, false, true, false, true, false, false)), (String ((Ascii (true,
     false, false, true, false, true, false, false)),
-    EmptyString))))))))))))))))))))))))))))))))))))))))))))))))))))))));
+    EmptyString))))))))))))))))))))))))))))))))))))))))))))))))))))))))))))))))))))))))))))))))))))))))))))))))))))));
     gop = OpNE; glit = Z0 } :: []))))
 
 (** val g_Integer : guard list **)
@@ -1553,9 +1584,10 @@ let g_Integer =
     false)), (String ((Ascii (true, false, true, false, false, true, true,
     false)), (String ((Ascii (false, true, true, true, false, true, true,
     false)), (String ((Ascii (false, false, false, true, false, true, false,
-    false)), (String ((Ascii (true, false, false, false, false, true, true,
+    false)), (String ((Ascii (false, false, true, false, false, true, false,
+    false)), (String ((Ascii (false, false, false, false, true, true, false,
     false)), (String ((Ascii (true, false, false, true, false, true, false,
-    false)), EmptyString)))))))))))); gop = OpNE; glit = (Zpos (XO (XO
+    false)), EmptyString)))))))))))))); gop = OpNE; glit = (Zpos (XO (XO
     XH))) } :: []
 
 (** val g_Integer64 : guard list **)
@@ -1565,9 +1597,10 @@ let g_Integer64 =
     false)), (String ((Ascii (true, false, true, false, false, true, true,
     false)), (String ((Ascii (false, true, true, true, false, true, true,
     false)), (String ((Ascii (false, false, false, true, false, true, false,
-    false)), (String ((Ascii (true, false, false, false, false, true, true,
+    false)), (String ((Ascii (false, false, true, false, false, true, false,
+    false)), (String ((Ascii (false, false, false, false, true, true, false,
     false)), (String ((Ascii (true, false, false, true, false, true, false,
-    false)), EmptyString)))))))))))); gop = OpNE; glit = (Zpos (XO (XO (XO
+    false)), EmptyString)))))))))))))); gop = OpNE; glit = (Zpos (XO (XO (XO
     XH)))) } :: []
 
 (** val g_IsAuthenticRequest : guard list **)
@@ -1577,28 +1610,19 @@ let g_IsAuthenticRequest =
     false)), (String ((Ascii (true, false, true, false, false, true, true,
     false)), (String ((Ascii (false, true, true, true, false, true, true,
     false)), (String ((Ascii (false, false, false, true, false, true, false,
-    false)), (String ((Ascii (false, true, false, false, true, true, true,
-    false)), (String ((Ascii (true, false, true, false, false, true, true,
-    false)), (String ((Ascii (true, false, false, false, true, true, true,
-    false)), (String ((Ascii (true, false, true, false, true, true, true,
-    false)), (String ((Ascii (true, false, true, false, false, true, true,
-    false)), (String ((Ascii (true, true, false, false, true, true, true,
-    false)), (String ((Ascii (false, false, true, false, true, true, true,
+    false)), (String ((Ascii (false, false, true, false, false, true, false,
+    false)), (String ((Ascii (false, false, false, false, true, true, false,
     false)), (String ((Ascii (true, false, false, true, false, true, false,
-    false)), EmptyString)))))))))))))))))))))))); gop = OpLT; glit = (Zpos
-    (XO (XO (XI (XO XH))))) } :: ({ gexpr = (String ((Ascii (false, false,
-    true, true, false, true, true, false)), (String ((Ascii (true, false,
-    true, false, false, true, true, false)), (String ((Ascii (false, true,
-    true, true, false, true, true, false)), (String ((Ascii (false, false,
-    false, true, false, true, false, false)), (String ((Ascii (true, true,
-    false, false, true, true, true, false)), (String ((Ascii (true, false,
-    true, false, false, true, true, false)), (String ((Ascii (true, true,
-    false, false, false, true, true, false)), (String ((Ascii (false, true,
-    false, false, true, true, true, false)), (String ((Ascii (true, false,
-    true, false, false, true, true, false)), (String ((Ascii (false, false,
-    true, false, true, true, true, false)), (String ((Ascii (true, false,
-    false, true, false, true, false, false)),
-    EmptyString)))))))))))))))))))))); gop = OpEQ; glit = Z0 } :: [])
+    false)), EmptyString)))))))))))))); gop = OpLT; glit = (Zpos (XO (XO (XI
+    (XO XH))))) } :: ({ gexpr = (String ((Ascii (false, false, true, true,
+    false, true, true, false)), (String ((Ascii (true, false, true, false,
+    false, true, true, false)), (String ((Ascii (false, true, true, true,
+    false, true, true, false)), (String ((Ascii (false, false, false, true,
+    false, true, false, false)), (String ((Ascii (false, false, true, false,
+    false, true, false, false)), (String ((Ascii (true, false, false, false,
+    true, true, false, false)), (String ((Ascii (true, false, false, true,
+    false, true, false, false)), EmptyString)))))))))))))); gop = OpEQ;
+    glit = Z0 } :: [])
 
 (** val sW_IsAuthenticRequest : z list list list **)
 
@@ -1614,43 +1638,27 @@ let g_IsAuthenticResponse =
     false)), (String ((Ascii (true, false, true, false, false, true, true,
     false)), (String ((Ascii (false, true, true, true, false, true, true,
     false)), (String ((Ascii (false, false, false, true, false, true, false,
-    false)), (String ((Ascii (false, true, false, false, true, true, true,
-    false)), (String ((Ascii (true, false, true, false, false, true, true,
-    false)), (String ((Ascii (true, true, false, false, true, true, true,
-    false)), (String ((Ascii (false, false, false, false, true, true, true,
-    false)), (String ((Ascii (true, true, true, true, false, true, true,
-    false)), (String ((Ascii (false, true, true, true, false, true, true,
-    false)), (String ((Ascii (true, true, false, false, true, true, true,
-    false)), (String ((Ascii (true, false, true, false, false, true, true,
+    false)), (String ((Ascii (false, false, true, false, false, true, false,
+    false)), (String ((Ascii (false, false, false, false, true, true, false,
     false)), (String ((Ascii (true, false, false, true, false, true, false,
-    false)), EmptyString)))))))))))))))))))))))))); gop = OpLT; glit = (Zpos
-    (XO (XO (XI (XO XH))))) } :: ({ gexpr = (String ((Ascii (false, false,
-    true, true, false, true, true, false)), (String ((Ascii (true, false,
-    true, false, false, true, true, false)), (String ((Ascii (false, true,
-    true, true, false, true, true, false)), (String ((Ascii (false, false,
-    false, true, false, true, false, false)), (String ((Ascii (false, true,
-    false, false, true, true, true, false)), (String ((Ascii (true, false,
-    true, false, false, true, true, false)), (String ((Ascii (true, false,
-    false, false, true, true, true, false)), (String ((Ascii (true, false,
-    true, false, true, true, true, false)), (String ((Ascii (true, false,
-    true, false, false, true, true, false)), (String ((Ascii (true, true,
-    false, false, true, true, true, false)), (String ((Ascii (false, false,
-    true, false, true, true, true, false)), (String ((Ascii (true, false,
-    false, true, false, true, false, false)),
-    EmptyString)))))))))))))))))))))))); gop = OpLT; glit = (Zpos (XO (XO (XI
+    false)), EmptyString)))))))))))))); gop = OpLT; glit = (Zpos (XO (XO (XI
     (XO XH))))) } :: ({ gexpr = (String ((Ascii (false, false, true, true,
     false, true, true, false)), (String ((Ascii (true, false, true, false,
     false, true, true, false)), (String ((Ascii (false, true, true, true,
     false, true, true, false)), (String ((Ascii (false, false, false, true,
-    false, true, false, false)), (String ((Ascii (true, true, false, false,
-    true, true, true, false)), (String ((Ascii (true, false, true, false,
-    false, true, true, false)), (String ((Ascii (true, true, false, false,
-    false, true, true, false)), (String ((Ascii (false, true, false, false,
-    true, true, true, false)), (String ((Ascii (true, false, true, false,
-    false, true, true, false)), (String ((Ascii (false, false, true, false,
-    true, true, true, false)), (String ((Ascii (true, false, false, true,
-    false, true, false, false)), EmptyString)))))))))))))))))))))); gop =
-    OpEQ; glit = Z0 } :: []))
+    false, true, false, false)), (String ((Ascii (false, false, true, false,
+    false, true, false, false)), (String ((Ascii (true, false, false, false,
+    true, true, false, false)), (String ((Ascii (true, false, false, true,
+    false, true, false, false)), EmptyString)))))))))))))); gop = OpLT;
+    glit = (Zpos (XO (XO (XI (XO XH))))) } :: ({ gexpr = (String ((Ascii
+    (false, false, true, true, false, true, true, false)), (String ((Ascii
+    (true, false, true, false, false, true, true, false)), (String ((Ascii
+    (false, true, true, true, false, true, true, false)), (String ((Ascii
+    (false, false, false, true, false, true, false, false)), (String ((Ascii
+    (false, false, true, false, false, true, false, false)), (String ((Ascii
+    (false, true, false, false, true, true, false, false)), (String ((Ascii
+    (true, false, false, true, false, true, false, false)),
+    EmptyString)))))))))))))); gop = OpEQ; glit = Z0 } :: []))
 
 (** val g_NewBytes : guard list **)
 
@@ -1659,26 +1667,38 @@ let g_NewBytes =
     false)), (String ((Ascii (true, false, true, false, false, true, true,
     false)), (String ((Ascii (false, true, true, true, false, true, true,
     false)), (String ((Ascii (false, false, false, true, false, true, false,
-    false)), (String ((Ascii (false, true, false, false, false, true, true,
+    false)), (String ((Ascii (false, false, true, false, false, true, false,
+    false)), (String ((Ascii (false, false, false, false, true, true, false,
     false)), (String ((Ascii (true, false, false, true, false, true, false,
-    false)), EmptyString)))))))))))); gop = OpGT; glit = (Zpos (XI (XO (XI
+    false)), EmptyString)))))))))))))); gop = OpGT; glit = (Zpos (XI (XO (XI
     (XI (XI (XI (XI XH)))))))) } :: []
 
 (** val g_NewDate : guard list **)
 
 let g_NewDate =
-  { gexpr = (String ((Ascii (true, false, true, false, true, true, true,
+  { gexpr = (String ((Ascii (false, false, true, false, false, true, false,
+    false)), (String ((Ascii (false, false, false, false, true, true, false,
+    false)), (String ((Ascii (false, true, true, true, false, true, false,
+    false)), (String ((Ascii (true, false, true, false, true, false, true,
     false)), (String ((Ascii (false, true, true, true, false, true, true,
     false)), (String ((Ascii (true, false, false, true, false, true, true,
     false)), (String ((Ascii (false, false, false, true, true, true, true,
-    false)), EmptyString)))))))); gop = OpLT; glit = Z0 } :: ({ gexpr =
-    (String ((Ascii (true, false, true, false, true, true, true, false)),
-    (String ((Ascii (false, true, true, true, false, true, true, false)),
-    (String ((Ascii (true, false, false, true, false, true, true, false)),
-    (String ((Ascii (false, false, false, true, true, true, true, false)),
-    EmptyString)))))))); gop = OpGT; glit = (Zpos (XI (XI (XI (XI (XI (XI (XI
-    (XI (XI (XI (XI (XI (XI (XI (XI (XI (XI (XI (XI (XI (XI (XI (XI (XI (XI
-    (XI (XI (XI (XI (XI (XI XH)))))))))))))))))))))))))))))))) } :: [])
+    false)), (String ((Ascii (false, false, false, true, false, true, false,
+    false)), (String ((Ascii (true, false, false, true, false, true, false,
+    false)), EmptyString)))))))))))))))))); gop = OpLT; glit =
+    Z0 } :: ({ gexpr = (String ((Ascii (false, false, true, false, false,
+    true, false, false)), (String ((Ascii (false, false, false, false, true,
+    true, false, false)), (String ((Ascii (false, true, true, true, false,
+    true, false, false)), (String ((Ascii (true, false, true, false, true,
+    false, true, false)), (String ((Ascii (false, true, true, true, false,
+    true, true, false)), (String ((Ascii (true, false, false, true, false,
+    true, true, false)), (String ((Ascii (false, false, false, true, true,
+    true, true, false)), (String ((Ascii (false, false, false, true, false,
+    true, false, false)), (String ((Ascii (true, false, false, true, false,
+    true, false, false)), EmptyString)))))))))))))))))); gop = OpGT; glit =
+    (Zpos (XI (XI (XI (XI (XI (XI (XI (XI (XI (XI (XI (XI (XI (XI (XI (XI (XI
+    (XI (XI (XI (XI (XI (XI (XI (XI (XI (XI (XI (XI (XI (XI
+    XH)))))))))))))))))))))))))))))))) } :: [])
 
 (** val g_NewIFID : guard list **)
 
@@ -1687,13 +1707,11 @@ let g_NewIFID =
     false)), (String ((Ascii (true, false, true, false, false, true, true,
     false)), (String ((Ascii (false, true, true, true, false, true, true,
     false)), (String ((Ascii (false, false, false, true, false, true, false,
-    false)), (String ((Ascii (true, false, false, false, false, true, true,
-    false)), (String ((Ascii (false, false, true, false, false, true, true,
-    false)), (String ((Ascii (false, false, true, false, false, true, true,
-    false)), (String ((Ascii (false, true, false, false, true, true, true,
+    false)), (String ((Ascii (false, false, true, false, false, true, false,
+    false)), (String ((Ascii (false, false, false, false, true, true, false,
     false)), (String ((Ascii (true, false, false, true, false, true, false,
-    false)), EmptyString)))))))))))))))))); gop = OpNE; glit = (Zpos (XO (XO
-    (XO XH)))) } :: []
+    false)), EmptyString)))))))))))))); gop = OpNE; glit = (Zpos (XO (XO (XO
+    XH)))) } :: []
 
 (** val g_NewIPv6Prefix : guard list **)
 
@@ -1702,24 +1720,20 @@ let g_NewIPv6Prefix =
     false)), (String ((Ascii (true, false, true, false, false, true, true,
     false)), (String ((Ascii (false, true, true, true, false, true, true,
     false)), (String ((Ascii (false, false, false, true, false, true, false,
-    false)), (String ((Ascii (false, false, false, false, true, true, true,
-    false)), (String ((Ascii (false, true, false, false, true, true, true,
-    false)), (String ((Ascii (true, false, true, false, false, true, true,
-    false)), (String ((Ascii (false, true, true, false, false, true, true,
-    false)), (String ((Ascii (true, false, false, true, false, true, true,
-    false)), (String ((Ascii (false, false, false, true, true, true, true,
+    false)), (String ((Ascii (false, false, true, false, false, true, false,
+    false)), (String ((Ascii (false, false, false, false, true, true, false,
     false)), (String ((Ascii (false, true, true, true, false, true, false,
     false)), (String ((Ascii (true, false, false, true, false, false, true,
     false)), (String ((Ascii (false, false, false, false, true, false, true,
     false)), (String ((Ascii (true, false, false, true, false, true, false,
-    false)), EmptyString)))))))))))))))))))))))))))); gop = OpNE; glit =
-    (Zpos (XO (XO (XO (XO XH))))) } :: ({ gexpr = (String ((Ascii (false,
-    true, false, false, false, true, true, false)), (String ((Ascii (true,
-    false, false, true, false, true, true, false)), (String ((Ascii (false,
-    false, true, false, true, true, true, false)), (String ((Ascii (true,
-    true, false, false, true, true, true, false)), EmptyString)))))))); gop =
-    OpNE; glit = (Zpos (XO (XO (XO (XO (XO (XO (XO XH)))))))) } :: ({ gexpr =
-    (String ((Ascii (true, false, false, true, false, true, true, false)),
+    false)), EmptyString)))))))))))))))))))); gop = OpNE; glit = (Zpos (XO
+    (XO (XO (XO XH))))) } :: ({ gexpr = (String ((Ascii (false, true, false,
+    false, false, true, true, false)), (String ((Ascii (true, false, false,
+    true, false, true, true, false)), (String ((Ascii (false, false, true,
+    false, true, true, true, false)), (String ((Ascii (true, true, false,
+    false, true, true, true, false)), EmptyString)))))))); gop = OpNE; glit =
+    (Zpos (XO (XO (XO (XO (XO (XO (XO XH)))))))) } :: ({ gexpr = (String
+    ((Ascii (true, false, false, true, false, true, true, false)),
     EmptyString)); gop = OpNE; glit = Z0 } :: ({ gexpr = (String ((Ascii
     (true, false, false, true, false, true, true, false)), EmptyString));
     gop = OpLT; glit = (Zpos (XO (XO (XO XH)))) } :: [])))
@@ -1731,9 +1745,10 @@ let g_NewString =
     false)), (String ((Ascii (true, false, true, false, false, true, true,
     false)), (String ((Ascii (false, true, true, true, false, true, true,
     false)), (String ((Ascii (false, false, false, true, false, true, false,
-    false)), (String ((Ascii (true, true, false, false, true, true, true,
+    false)), (String ((Ascii (false, false, true, false, false, true, false,
+    false)), (String ((Ascii (false, false, false, false, true, true, false,
     false)), (String ((Ascii (true, false, false, true, false, true, false,
-    false)), EmptyString)))))))))))); gop = OpGT; glit = (Zpos (XI (XO (XI
+    false)), EmptyString)))))))))))))); gop = OpGT; glit = (Zpos (XI (XO (XI
     (XI (XI (XI (XI XH)))))))) } :: []
 
 (** val g_NewTLV : guard list **)
@@ -1743,31 +1758,19 @@ let g_NewTLV =
     false)), (String ((Ascii (true, false, true, false, false, true, true,
     false)), (String ((Ascii (false, true, true, true, false, true, true,
     false)), (String ((Ascii (false, false, false, true, false, true, false,
-    false)), (String ((Ascii (false, false, true, false, true, true, true,
-    false)), (String ((Ascii (false, false, true, true, false, true, true,
-    false)), (String ((Ascii (false, true, true, false, true, true, true,
-    false)), (String ((Ascii (false, true, true, false, true, false, true,
-    false)), (String ((Ascii (true, false, false, false, false, true, true,
-    false)), (String ((Ascii (false, false, true, true, false, true, true,
-    false)), (String ((Ascii (true, false, true, false, true, true, true,
-    false)), (String ((Ascii (true, false, true, false, false, true, true,
+    false)), (String ((Ascii (false, false, true, false, false, true, false,
+    false)), (String ((Ascii (true, false, false, false, true, true, false,
     false)), (String ((Ascii (true, false, false, true, false, true, false,
-    false)), EmptyString)))))))))))))))))))))))))); gop = OpLT; glit = (Zpos
+    false)), EmptyString)))))))))))))); gop = OpLT; glit = (Zpos
     XH) } :: ({ gexpr = (String ((Ascii (false, false, true, true, false,
     true, true, false)), (String ((Ascii (true, false, true, false, false,
     true, true, false)), (String ((Ascii (false, true, true, true, false,
     true, true, false)), (String ((Ascii (false, false, false, true, false,
-    true, false, false)), (String ((Ascii (false, false, true, false, true,
-    true, true, false)), (String ((Ascii (false, false, true, true, false,
-    true, true, false)), (String ((Ascii (false, true, true, false, true,
-    true, true, false)), (String ((Ascii (false, true, true, false, true,
-    false, true, false)), (String ((Ascii (true, false, false, false, false,
-    true, true, false)), (String ((Ascii (false, false, true, true, false,
-    true, true, false)), (String ((Ascii (true, false, true, false, true,
-    true, true, false)), (String ((Ascii (true, false, true, false, false,
-    true, true, false)), (String ((Ascii (true, false, false, true, false,
-    true, false, false)), EmptyString)))))))))))))))))))))))))); gop = OpGT;
-    glit = (Zpos (XI (XO (XI (XI (XI (XI (XI XH)))))))) } :: [])
+    true, false, false)), (String ((Ascii (false, false, true, false, false,
+    true, false, false)), (String ((Ascii (true, false, false, false, true,
+    true, false, false)), (String ((Ascii (true, false, false, true, false,
+    true, false, false)), EmptyString)))))))))))))); gop = OpGT; glit = (Zpos
+    (XI (XO (XI (XI (XI (XI (XI XH)))))))) } :: [])
 
 (** val g_NewTunnelPassword : guard list **)
 
@@ -1776,82 +1779,49 @@ let g_NewTunnelPassword =
     false)), (String ((Ascii (true, false, true, false, false, true, true,
     false)), (String ((Ascii (false, true, true, true, false, true, true,
     false)), (String ((Ascii (false, false, false, true, false, true, false,
-    false)), (String ((Ascii (false, false, false, false, true, true, true,
-    false)), (String ((Ascii (true, false, false, false, false, true, true,
-    false)), (String ((Ascii (true, true, false, false, true, true, true,
-    false)), (String ((Ascii (true, true, false, false, true, true, true,
-    false)), (String ((Ascii (true, true, true, false, true, true, true,
-    false)), (String ((Ascii (true, true, true, true, false, true, true,
-    false)), (String ((Ascii (false, true, false, false, true, true, true,
-    false)), (String ((Ascii (false, false, true, false, false, true, true,
+    false)), (String ((Ascii (false, false, true, false, false, true, false,
+    false)), (String ((Ascii (false, false, false, false, true, true, false,
     false)), (String ((Ascii (true, false, false, true, false, true, false,
-    false)), EmptyString)))))))))))))))))))))))))); gop = OpGT; glit = (Zpos
-    (XI (XI (XI (XI (XO (XI (XI XH)))))))) } :: ({ gexpr = (String ((Ascii
-    (false, false, true, true, false, true, true, false)), (String ((Ascii
-    (true, false, true, false, false, true, true, false)), (String ((Ascii
-    (false, true, true, true, false, true, true, false)), (String ((Ascii
-    (false, false, false, true, false, true, false, false)), (String ((Ascii
-    (true, true, false, false, true, true, true, false)), (String ((Ascii
-    (true, false, false, false, false, true, true, false)), (String ((Ascii
-    (false, false, true, true, false, true, true, false)), (String ((Ascii
-    (false, false, true, false, true, true, true, false)), (String ((Ascii
-    (true, false, false, true, false, true, false, false)),
-    EmptyString)))))))))))))))))); gop = OpNE; glit = (Zpos (XO
-    XH)) } :: ({ gexpr = (String ((Ascii (true, true, false, false, true,
-    true, true, false)), (String ((Ascii (true, false, false, false, false,
-    true, true, false)), (String ((Ascii (false, false, true, true, false,
-    true, true, false)), (String ((Ascii (false, false, true, false, true,
-    true, true, false)), (String ((Ascii (true, true, false, true, true,
-    false, true, false)), (String ((Ascii (false, false, false, false, true,
-    true, false, false)), (String ((Ascii (true, false, true, true, true,
-    false, true, false)), (String ((Ascii (false, false, false, false, false,
-    true, false, false)), (String ((Ascii (false, true, true, false, false,
-    true, false, false)), (String ((Ascii (false, false, false, false, false,
-    true, false, false)), (String ((Ascii (false, false, false, false, true,
-    true, false, false)), (String ((Ascii (false, false, false, true, true,
-    true, true, false)), (String ((Ascii (false, false, false, true, true,
-    true, false, false)), (String ((Ascii (false, false, false, false, true,
-    true, false, false)), EmptyString)))))))))))))))))))))))))))); gop =
-    OpNE; glit = (Zpos (XO (XO (XO (XO (XO (XO (XO XH)))))))) } :: ({ gexpr =
-    (String ((Ascii (false, false, true, true, false, true, true, false)),
-    (String ((Ascii (true, false, true, false, false, true, true, false)),
-    (String ((Ascii (false, true, true, true, false, true, true, false)),
-    (String ((Ascii (false, false, false, true, false, true, false, false)),
-    (String ((Ascii (true, true, false, false, true, true, true, false)),
-    (String ((Ascii (true, false, true, false, false, true, true, false)),
-    (String ((Ascii (true, true, false, false, false, true, true, false)),
-    (String ((Ascii (false, true, false, false, true, true, true, false)),
-    (String ((Ascii (true, false, true, false, false, true, true, false)),
-    (String ((Ascii (false, false, true, false, true, true, true, false)),
-    (String ((Ascii (true, false, false, true, false, true, false, false)),
-    EmptyString)))))))))))))))))))))); gop = OpEQ; glit = Z0 } :: ({ gexpr =
-    (String ((Ascii (false, false, true, true, false, true, true, false)),
-    (String ((Ascii (true, false, true, false, false, true, true, false)),
-    (String ((Ascii (false, true, true, true, false, true, true, false)),
-    (String ((Ascii (false, false, false, true, false, true, false, false)),
-    (String ((Ascii (false, true, false, false, true, true, true, false)),
-    (String ((Ascii (true, false, true, false, false, true, true, false)),
-    (String ((Ascii (true, false, false, false, true, true, true, false)),
-    (String ((Ascii (true, false, true, false, true, true, true, false)),
-    (String ((Ascii (true, false, true, false, false, true, true, false)),
-    (String ((Ascii (true, true, false, false, true, true, true, false)),
-    (String ((Ascii (false, false, true, false, true, true, true, false)),
-    (String ((Ascii (true, false, false, false, false, false, true, false)),
-    (String ((Ascii (true, false, true, false, true, true, true, false)),
-    (String ((Ascii (false, false, true, false, true, true, true, false)),
-    (String ((Ascii (false, false, false, true, false, true, true, false)),
-    (String ((Ascii (true, false, true, false, false, true, true, false)),
-    (String ((Ascii (false, true, true, true, false, true, true, false)),
-    (String ((Ascii (false, false, true, false, true, true, true, false)),
-    (String ((Ascii (true, false, false, true, false, true, true, false)),
-    (String ((Ascii (true, true, false, false, false, true, true, false)),
-    (String ((Ascii (true, false, false, false, false, true, true, false)),
-    (String ((Ascii (false, false, true, false, true, true, true, false)),
-    (String ((Ascii (true, true, true, true, false, true, true, false)),
-    (String ((Ascii (false, true, false, false, true, true, true, false)),
-    (String ((Ascii (true, false, false, true, false, true, false, false)),
-    EmptyString)))))))))))))))))))))))))))))))))))))))))))))))))); gop =
-    OpNE; glit = (Zpos (XO (XO (XO (XO XH))))) } :: ({ gexpr = (String
+    false)), EmptyString)))))))))))))); gop = OpGT; glit = (Zpos (XI (XI (XI
+    (XI (XO (XI (XI XH)))))))) } :: ({ gexpr = (String ((Ascii (false, false,
+    true, true, false, true, true, false)), (String ((Ascii (true, false,
+    true, false, false, true, true, false)), (String ((Ascii (false, true,
+    true, true, false, true, true, false)), (String ((Ascii (false, false,
+    false, true, false, true, false, false)), (String ((Ascii (false, false,
+    true, false, false, true, false, false)), (String ((Ascii (true, false,
+    false, false, true, true, false, false)), (String ((Ascii (true, false,
+    false, true, false, true, false, false)), EmptyString))))))))))))));
+    gop = OpNE; glit = (Zpos (XO XH)) } :: ({ gexpr = (String ((Ascii (false,
+    false, true, false, false, true, false, false)), (String ((Ascii (true,
+    false, false, false, true, true, false, false)), (String ((Ascii (true,
+    true, false, true, true, false, true, false)), (String ((Ascii (false,
+    false, false, false, true, true, false, false)), (String ((Ascii (true,
+    false, true, true, true, false, true, false)), (String ((Ascii (false,
+    false, false, false, false, true, false, false)), (String ((Ascii (false,
+    true, true, false, false, true, false, false)), (String ((Ascii (false,
+    false, false, false, false, true, false, false)), (String ((Ascii (false,
+    false, false, false, true, true, false, false)), (String ((Ascii (false,
+    false, false, true, true, true, true, false)), (String ((Ascii (false,
+    false, false, true, true, true, false, false)), (String ((Ascii (false,
+    false, false, false, true, true, false, false)),
+    EmptyString)))))))))))))))))))))))); gop = OpNE; glit = (Zpos (XO (XO (XO
+    (XO (XO (XO (XO XH)))))))) } :: ({ gexpr = (String ((Ascii (false, false,
+    true, true, false, true, true, false)), (String ((Ascii (true, false,
+    true, false, false, true, true, false)), (String ((Ascii (false, true,
+    true, true, false, true, true, false)), (String ((Ascii (false, false,
+    false, true, false, true, false, false)), (String ((Ascii (false, false,
+    true, false, false, true, false, false)), (String ((Ascii (false, true,
+    false, false, true, true, false, false)), (String ((Ascii (true, false,
+    false, true, false, true, false, false)), EmptyString))))))))))))));
+    gop = OpEQ; glit = Z0 } :: ({ gexpr = (String ((Ascii (false, false,
+    true, true, false, true, true, false)), (String ((Ascii (true, false,
+    true, false, false, true, true, false)), (String ((Ascii (false, true,
+    true, true, false, true, true, false)), (String ((Ascii (false, false,
+    false, true, false, true, false, false)), (String ((Ascii (false, false,
+    true, false, false, true, false, false)), (String ((Ascii (true, true,
+    false, false, true, true, false, false)), (String ((Ascii (true, false,
+    false, true, false, true, false, false)), EmptyString))))))))))))));
+    gop = OpNE; glit = (Zpos (XO (XO (XO (XO XH))))) } :: ({ gexpr = (String
     ((Ascii (true, true, false, false, false, true, true, false)), (String
     ((Ascii (false, false, false, true, false, true, true, false)), (String
     ((Ascii (true, false, true, false, true, true, true, false)), (String
@@ -1876,57 +1846,27 @@ let g_NewUserPassword =
     false)), (String ((Ascii (true, false, true, false, false, true, true,
     false)), (String ((Ascii (false, true, true, true, false, true, true,
     false)), (String ((Ascii (false, false, false, true, false, true, false,
-    false)), (String ((Ascii (false, false, false, false, true, true, true,
-    false)), (String ((Ascii (false, false, true, true, false, true, true,
-    false)), (String ((Ascii (true, false, false, false, false, true, true,
-    false)), (String ((Ascii (true, false, false, true, false, true, true,
-    false)), (String ((Ascii (false, true, true, true, false, true, true,
-    false)), (String ((Ascii (false, false, true, false, true, true, true,
-    false)), (String ((Ascii (true, false, true, false, false, true, true,
-    false)), (String ((Ascii (false, false, false, true, true, true, true,
-    false)), (String ((Ascii (false, false, true, false, true, true, true,
+    false)), (String ((Ascii (false, false, true, false, false, true, false,
+    false)), (String ((Ascii (false, false, false, false, true, true, false,
     false)), (String ((Ascii (true, false, false, true, false, true, false,
-    false)), EmptyString)))))))))))))))))))))))))))); gop = OpGT; glit =
-    (Zpos (XO (XO (XO (XO (XO (XO (XO XH)))))))) } :: ({ gexpr = (String
-    ((Ascii (false, false, true, true, false, true, true, false)), (String
-    ((Ascii (true, false, true, false, false, true, true, false)), (String
-    ((Ascii (false, true, true, true, false, true, true, false)), (String
-    ((Ascii (false, false, false, true, false, true, false, false)), (String
-    ((Ascii (true, true, false, false, true, true, true, false)), (String
-    ((Ascii (true, false, true, false, false, true, true, false)), (String
-    ((Ascii (true, true, false, false, false, true, true, false)), (String
-    ((Ascii (false, true, false, false, true, true, true, false)), (String
-    ((Ascii (true, false, true, false, false, true, true, false)), (String
-    ((Ascii (false, false, true, false, true, true, true, false)), (String
-    ((Ascii (true, false, false, true, false, true, false, false)),
-    EmptyString)))))))))))))))))))))); gop = OpEQ; glit = Z0 } :: ({ gexpr =
-    (String ((Ascii (false, false, true, true, false, true, true, false)),
-    (String ((Ascii (true, false, true, false, false, true, true, false)),
-    (String ((Ascii (false, true, true, true, false, true, true, false)),
-    (String ((Ascii (false, false, false, true, false, true, false, false)),
-    (String ((Ascii (false, true, false, false, true, true, true, false)),
-    (String ((Ascii (true, false, true, false, false, true, true, false)),
-    (String ((Ascii (true, false, false, false, true, true, true, false)),
-    (String ((Ascii (true, false, true, false, true, true, true, false)),
-    (String ((Ascii (true, false, true, false, false, true, true, false)),
-    (String ((Ascii (true, true, false, false, true, true, true, false)),
-    (String ((Ascii (false, false, true, false, true, true, true, false)),
-    (String ((Ascii (true, false, false, false, false, false, true, false)),
-    (String ((Ascii (true, false, true, false, true, true, true, false)),
-    (String ((Ascii (false, false, true, false, true, true, true, false)),
-    (String ((Ascii (false, false, false, true, false, true, true, false)),
-    (String ((Ascii (true, false, true, false, false, true, true, false)),
-    (String ((Ascii (false, true, true, true, false, true, true, false)),
-    (String ((Ascii (false, false, true, false, true, true, true, false)),
-    (String ((Ascii (true, false, false, true, false, true, true, false)),
-    (String ((Ascii (true, true, false, false, false, true, true, false)),
-    (String ((Ascii (true, false, false, false, false, true, true, false)),
-    (String ((Ascii (false, false, true, false, true, true, true, false)),
-    (String ((Ascii (true, true, true, true, false, true, true, false)),
-    (String ((Ascii (false, true, false, false, true, true, true, false)),
-    (String ((Ascii (true, false, false, true, false, true, false, false)),
-    EmptyString)))))))))))))))))))))))))))))))))))))))))))))))))); gop =
-    OpNE; glit = (Zpos (XO (XO (XO (XO XH))))) } :: ({ gexpr = (String
+    false)), EmptyString)))))))))))))); gop = OpGT; glit = (Zpos (XO (XO (XO
+    (XO (XO (XO (XO XH)))))))) } :: ({ gexpr = (String ((Ascii (false, false,
+    true, true, false, true, true, false)), (String ((Ascii (true, false,
+    true, false, false, true, true, false)), (String ((Ascii (false, true,
+    true, true, false, true, true, false)), (String ((Ascii (false, false,
+    false, true, false, true, false, false)), (String ((Ascii (false, false,
+    true, false, false, true, false, false)), (String ((Ascii (true, false,
+    false, false, true, true, false, false)), (String ((Ascii (true, false,
+    false, true, false, true, false, false)), EmptyString))))))))))))));
+    gop = OpEQ; glit = Z0 } :: ({ gexpr = (String ((Ascii (false, false,
+    true, true, false, true, true, false)), (String ((Ascii (true, false,
+    true, false, false, true, true, false)), (String ((Ascii (false, true,
+    true, true, false, true, true, false)), (String ((Ascii (false, false,
+    false, true, false, true, false, false)), (String ((Ascii (false, false,
+    true, false, false, true, false, false)), (String ((Ascii (false, true,
+    false, false, true, true, false, false)), (String ((Ascii (true, false,
+    false, true, false, true, false, false)), EmptyString))))))))))))));
+    gop = OpNE; glit = (Zpos (XO (XO (XO (XO XH))))) } :: ({ gexpr = (String
     ((Ascii (true, true, false, false, false, true, true, false)), (String
     ((Ascii (false, false, false, true, false, true, true, false)), (String
     ((Ascii (true, false, true, false, true, true, true, false)), (String
@@ -1947,25 +1887,19 @@ let g_NewVendorSpecific =
     false)), (String ((Ascii (true, false, true, false, false, true, true,
     false)), (String ((Ascii (false, true, true, true, false, true, true,
     false)), (String ((Ascii (false, false, false, true, false, true, false,
-    false)), (String ((Ascii (false, true, true, false, true, true, true,
-    false)), (String ((Ascii (true, false, false, false, false, true, true,
-    false)), (String ((Ascii (false, false, true, true, false, true, true,
-    false)), (String ((Ascii (true, false, true, false, true, true, true,
-    false)), (String ((Ascii (true, false, true, false, false, true, true,
+    false)), (String ((Ascii (false, false, true, false, false, true, false,
+    false)), (String ((Ascii (true, false, false, false, true, true, false,
     false)), (String ((Ascii (true, false, false, true, false, true, false,
-    false)), EmptyString)))))))))))))))))))); gop = OpLT; glit = (Zpos
+    false)), EmptyString)))))))))))))); gop = OpLT; glit = (Zpos
     XH) } :: ({ gexpr = (String ((Ascii (false, false, true, true, false,
     true, true, false)), (String ((Ascii (true, false, true, false, false,
     true, true, false)), (String ((Ascii (false, true, true, true, false,
     true, true, false)), (String ((Ascii (false, false, false, true, false,
-    true, false, false)), (String ((Ascii (false, true, true, false, true,
-    true, true, false)), (String ((Ascii (true, false, false, false, false,
-    true, true, false)), (String ((Ascii (false, false, true, true, false,
-    true, true, false)), (String ((Ascii (true, false, true, false, true,
-    true, true, false)), (String ((Ascii (true, false, true, false, false,
-    true, true, false)), (String ((Ascii (true, false, false, true, false,
-    true, false, false)), EmptyString)))))))))))))))))))); gop = OpGT; glit =
-    (Zpos (XI (XO (XO (XI (XI (XI (XI XH)))))))) } :: [])
+    true, false, false)), (String ((Ascii (false, false, true, false, false,
+    true, false, false)), (String ((Ascii (true, false, false, false, true,
+    true, false, false)), (String ((Ascii (true, false, false, true, false,
+    true, false, false)), EmptyString)))))))))))))); gop = OpGT; glit = (Zpos
+    (XI (XO (XO (XI (XI (XI (XI XH)))))))) } :: [])
 
 (** val g_PacketServer_Serve : guard list **)
 
@@ -1988,7 +1922,8 @@ let g_PacketServer_Serve =
     false)), (String ((Ascii (false, true, false, false, true, true, false,
     false)), (String ((Ascii (false, false, false, true, false, true, false,
     false)), (String ((Ascii (false, true, true, false, false, true, false,
-    false)), (String ((Ascii (true, true, false, false, true, true, true,
+    false)), (String ((Ascii (false, false, true, false, false, true, false,
+    false)), (String ((Ascii (false, true, false, false, true, true, true,
     false)), (String ((Ascii (false, true, true, true, false, true, false,
     false)), (String ((Ascii (true, true, false, false, true, true, true,
     false)), (String ((Ascii (false, false, false, true, false, true, true,
@@ -2009,26 +1944,25 @@ let g_PacketServer_Serve =
     false)), (String ((Ascii (false, false, true, false, false, true, true,
     false)), (String ((Ascii (true, false, false, true, false, true, false,
     false)),
-    EmptyString))))))))))))))))))))))))))))))))))))))))))))))))))))))))))))))))))))))))))));
-    gop = OpEQ; glit = (Zpos XH) } :: ({ gexpr = (String ((Ascii (true, true,
-    false, false, true, true, true, false)), (String ((Ascii (false, true,
-    true, true, false, true, false, false)), (String ((Ascii (false, false,
-    true, true, false, true, true, false)), (String ((Ascii (true, false,
-    false, true, false, true, true, false)), (String ((Ascii (true, true,
-    false, false, true, true, true, false)), (String ((Ascii (false, false,
-    true, false, true, true, true, false)), (String ((Ascii (true, false,
-    true, false, false, true, true, false)), (String ((Ascii (false, true,
-    true, true, false, true, true, false)), (String ((Ascii (true, false,
-    true, false, false, true, true, false)), (String ((Ascii (false, true,
-    false, false, true, true, true, false)), (String ((Ascii (true, true,
-    false, false, true, true, true, false)), (String ((Ascii (true, true,
-    false, true, true, false, true, false)), (String ((Ascii (true, true,
-    false, false, false, true, true, false)), (String ((Ascii (true, true,
-    true, true, false, true, true, false)), (String ((Ascii (false, true,
-    true, true, false, true, true, false)), (String ((Ascii (false, true,
-    true, true, false, true, true, false)), (String ((Ascii (true, false,
-    true, true, true, false, true, false)),
-    EmptyString)))))))))))))))))))))))))))))))))); gop = OpEQ; glit =
+    EmptyString))))))))))))))))))))))))))))))))))))))))))))))))))))))))))))))))))))))))))))));
+    gop = OpEQ; glit = (Zpos XH) } :: ({ gexpr = (String ((Ascii (false,
+    false, true, false, false, true, false, false)), (String ((Ascii (false,
+    true, false, false, true, true, true, false)), (String ((Ascii (false,
+    true, true, true, false, true, false, false)), (String ((Ascii (false,
+    false, true, true, false, true, true, false)), (String ((Ascii (true,
+    false, false, true, false, true, true, false)), (String ((Ascii (true,
+    true, false, false, true, true, true, false)), (String ((Ascii (false,
+    false, true, false, true, true, true, false)), (String ((Ascii (true,
+    false, true, false, false, true, true, false)), (String ((Ascii (false,
+    true, true, true, false, true, true, false)), (String ((Ascii (true,
+    false, true, false, false, true, true, false)), (String ((Ascii (false,
+    true, false, false, true, true, true, false)), (String ((Ascii (true,
+    true, false, false, true, true, true, false)), (String ((Ascii (true,
+    true, false, true, true, false, true, false)), (String ((Ascii (false,
+    false, true, false, false, true, false, false)), (String ((Ascii (false,
+    false, false, false, true, true, false, false)), (String ((Ascii (true,
+    false, true, true, true, false, true, false)),
+    EmptyString)))))))))))))))))))))))))))))))); gop = OpEQ; glit =
     Z0 } :: ({ gexpr = (String ((Ascii (true, false, false, false, false,
     true, true, false)), (String ((Ascii (false, false, true, false, true,
     true, true, false)), (String ((Ascii (true, true, true, true, false,
@@ -2047,7 +1981,8 @@ let g_PacketServer_Serve =
     true, false, false)), (String ((Ascii (false, true, false, false, true,
     true, false, false)), (String ((Ascii (false, false, false, true, false,
     true, false, false)), (String ((Ascii (false, true, true, false, false,
-    true, false, false)), (String ((Ascii (true, true, false, false, true,
+    true, false, false)), (String ((Ascii (false, false, true, false, false,
+    true, false, false)), (String ((Ascii (false, true, false, false, true,
     true, true, false)), (String ((Ascii (false, true, true, true, false,
     true, false, false)), (String ((Ascii (true, true, false, false, true,
     true, true, false)), (String ((Ascii (false, false, false, true, false,
@@ -2068,7 +2003,7 @@ let g_PacketServer_Serve =
     true, true, false)), (String ((Ascii (false, false, true, false, false,
     true, true, false)), (String ((Ascii (true, false, false, true, false,
     true, false, false)),
-    EmptyString))))))))))))))))))))))))))))))))))))))))))))))))))))))))))))))))))))))))))));
+    EmptyString))))))))))))))))))))))))))))))))))))))))))))))))))))))))))))))))))))))))))))));
     gop = OpEQ; glit = (Zpos XH) } :: ({ gexpr = (String ((Ascii (false,
     false, true, true, false, true, true, false)), (String ((Ascii (true,
     false, true, false, false, true, true, false)), (String ((Ascii (false,
@@ -2099,12 +2034,27 @@ let sW_Packet_Encode =
 (** val g_Packet_MarshalBinary : guard list **)
 
 let g_Packet_MarshalBinary =
-  { gexpr = (String ((Ascii (true, true, false, false, true, true, true,
+  { gexpr = (String ((Ascii (false, true, false, false, true, true, false,
+    false)), (String ((Ascii (false, false, false, false, true, true, false,
+    false)), (String ((Ascii (false, false, false, false, false, true, false,
+    false)), (String ((Ascii (true, true, false, true, false, true, false,
+    false)), (String ((Ascii (false, false, false, false, false, true, false,
+    false)), (String ((Ascii (true, false, false, false, false, true, true,
+    false)), (String ((Ascii (false, false, true, false, true, true, true,
+    false)), (String ((Ascii (false, false, true, false, true, true, true,
+    false)), (String ((Ascii (false, true, false, false, true, true, true,
     false)), (String ((Ascii (true, false, false, true, false, true, true,
-    false)), (String ((Ascii (false, true, false, true, true, true, true,
+    false)), (String ((Ascii (false, true, false, false, false, true, true,
+    false)), (String ((Ascii (true, false, true, false, true, true, true,
+    false)), (String ((Ascii (false, false, true, false, true, true, true,
     false)), (String ((Ascii (true, false, true, false, false, true, true,
-    false)), EmptyString)))))))); gop = OpGT; glit = (Zpos (XO (XO (XO (XO
-    (XO (XO (XO (XO (XO (XO (XO (XO XH))))))))))))) } :: []
+    false)), (String ((Ascii (true, true, false, false, true, true, true,
+    false)), (String ((Ascii (false, false, true, true, false, false, true,
+    false)), (String ((Ascii (true, false, true, false, false, true, true,
+    false)), (String ((Ascii (false, true, true, true, false, true, true,
+    false)), EmptyString)))))))))))))))))))))))))))))))))))); gop = OpGT;
+    glit = (Zpos (XO (XO (XO (XO (XO (XO (XO (XO (XO (XO (XO (XO
+    XH))))))))))))) } :: []
 
 (** val g_Parse : guard list **)
 
@@ -2113,23 +2063,88 @@ let g_Parse =
     false)), (String ((Ascii (true, false, true, false, false, true, true,
     false)), (String ((Ascii (false, true, true, true, false, true, true,
     false)), (String ((Ascii (false, false, false, true, false, true, false,
-    false)), (String ((Ascii (false, true, false, false, false, true, true,
+    false)), (String ((Ascii (false, false, true, false, false, true, false,
+    false)), (String ((Ascii (false, false, false, false, true, true, false,
     false)), (String ((Ascii (true, false, false, true, false, true, false,
-    false)), EmptyString)))))))))))); gop = OpLT; glit = (Zpos (XO (XO (XI
-    (XO XH))))) } :: ({ gexpr = (String ((Ascii (false, false, true, true,
-    false, true, true, false)), (String ((Ascii (true, false, true, false,
+    false)), EmptyString)))))))))))))); gop = OpLT; glit = (Zpos (XO (XO (XI
+    (XO XH))))) } :: ({ gexpr = (String ((Ascii (true, false, false, true,
     false, true, true, false)), (String ((Ascii (false, true, true, true,
-    false, true, true, false)), (String ((Ascii (true, true, true, false,
     false, true, true, false)), (String ((Ascii (false, false, true, false,
     true, true, true, false)), (String ((Ascii (false, false, false, true,
-    false, true, true, false)), EmptyString)))))))))))); gop = OpLT; glit =
-    (Zpos (XO (XO (XI (XO XH))))) } :: ({ gexpr = (String ((Ascii (false,
-    false, true, true, false, true, true, false)), (String ((Ascii (true,
-    false, true, false, false, true, true, false)), (String ((Ascii (false,
-    true, true, true, false, true, true, false)), (String ((Ascii (true,
-    true, true, false, false, true, true, false)), (String ((Ascii (false,
-    false, true, false, true, true, true, false)), (String ((Ascii (false,
-    false, false, true, false, true, true, false)), EmptyString))))))))))));
+    false, true, false, false)), (String ((Ascii (false, true, false, false,
+    false, true, true, false)), (String ((Ascii (true, false, false, true,
+    false, true, true, false)), (String ((Ascii (false, true, true, true,
+    false, true, true, false)), (String ((Ascii (true, false, false, false,
+    false, true, true, false)), (String ((Ascii (false, true, false, false,
+    true, true, true, false)), (String ((Ascii (true, false, false, true,
+    true, true, true, false)), (String ((Ascii (false, true, true, true,
+    false, true, false, false)), (String ((Ascii (false, true, false, false,
+    false, false, true, false)), (String ((Ascii (true, false, false, true,
+    false, true, true, false)), (String ((Ascii (true, true, true, false,
+    false, true, true, false)), (String ((Ascii (true, false, true, false,
+    false, false, true, false)), (String ((Ascii (false, true, true, true,
+    false, true, true, false)), (String ((Ascii (false, false, true, false,
+    false, true, true, false)), (String ((Ascii (true, false, false, true,
+    false, true, true, false)), (String ((Ascii (true, false, false, false,
+    false, true, true, false)), (String ((Ascii (false, true, true, true,
+    false, true, true, false)), (String ((Ascii (false, true, true, true,
+    false, true, false, false)), (String ((Ascii (true, false, true, false,
+    true, false, true, false)), (String ((Ascii (true, false, false, true,
+    false, true, true, false)), (String ((Ascii (false, true, true, true,
+    false, true, true, false)), (String ((Ascii (false, false, true, false,
+    true, true, true, false)), (String ((Ascii (true, false, false, false,
+    true, true, false, false)), (String ((Ascii (false, true, true, false,
+    true, true, false, false)), (String ((Ascii (false, false, false, true,
+    false, true, false, false)), (String ((Ascii (false, false, true, false,
+    false, true, false, false)), (String ((Ascii (false, false, false, false,
+    true, true, false, false)), (String ((Ascii (true, true, false, true,
+    true, false, true, false)), (String ((Ascii (false, true, false, false,
+    true, true, false, false)), (String ((Ascii (false, true, false, true,
+    true, true, false, false)), (String ((Ascii (false, false, true, false,
+    true, true, false, false)), (String ((Ascii (true, false, true, true,
+    true, false, true, false)), (String ((Ascii (true, false, false, true,
+    false, true, false, false)), (String ((Ascii (true, false, false, true,
+    false, true, false, false)),
+    EmptyString))))))))))))))))))))))))))))))))))))))))))))))))))))))))))))))))))))))))));
+    gop = OpLT; glit = (Zpos (XO (XO (XI (XO XH))))) } :: ({ gexpr = (String
+    ((Ascii (true, false, false, true, false, true, true, false)), (String
+    ((Ascii (false, true, true, true, false, true, true, false)), (String
+    ((Ascii (false, false, true, false, true, true, true, false)), (String
+    ((Ascii (false, false, false, true, false, true, false, false)), (String
+    ((Ascii (false, true, false, false, false, true, true, false)), (String
+    ((Ascii (true, false, false, true, false, true, true, false)), (String
+    ((Ascii (false, true, true, true, false, true, true, false)), (String
+    ((Ascii (true, false, false, false, false, true, true, false)), (String
+    ((Ascii (false, true, false, false, true, true, true, false)), (String
+    ((Ascii (true, false, false, true, true, true, true, false)), (String
+    ((Ascii (false, true, true, true, false, true, false, false)), (String
+    ((Ascii (false, true, false, false, false, false, true, false)), (String
+    ((Ascii (true, false, false, true, false, true, true, false)), (String
+    ((Ascii (true, true, true, false, false, true, true, false)), (String
+    ((Ascii (true, false, true, false, false, false, true, false)), (String
+    ((Ascii (false, true, true, true, false, true, true, false)), (String
+    ((Ascii (false, false, true, false, false, true, true, false)), (String
+    ((Ascii (true, false, false, true, false, true, true, false)), (String
+    ((Ascii (true, false, false, false, false, true, true, false)), (String
+    ((Ascii (false, true, true, true, false, true, true, false)), (String
+    ((Ascii (false, true, true, true, false, true, false, false)), (String
+    ((Ascii (true, false, true, false, true, false, true, false)), (String
+    ((Ascii (true, false, false, true, false, true, true, false)), (String
+    ((Ascii (false, true, true, true, false, true, true, false)), (String
+    ((Ascii (false, false, true, false, true, true, true, false)), (String
+    ((Ascii (true, false, false, false, true, true, false, false)), (String
+    ((Ascii (false, true, true, false, true, true, false, false)), (String
+    ((Ascii (false, false, false, true, false, true, false, false)), (String
+    ((Ascii (false, false, true, false, false, true, false, false)), (String
+    ((Ascii (false, false, false, false, true, true, false, false)), (String
+    ((Ascii (true, true, false, true, true, false, true, false)), (String
+    ((Ascii (false, true, false, false, true, true, false, false)), (String
+    ((Ascii (false, true, false, true, true, true, false, false)), (String
+    ((Ascii (false, false, true, false, true, true, false, false)), (String
+    ((Ascii (true, false, true, true, true, false, true, false)), (String
+    ((Ascii (true, false, false, true, false, true, false, false)), (String
+    ((Ascii (true, false, false, true, false, true, false, false)),
+    EmptyString))))))))))))))))))))))))))))))))))))))))))))))))))))))))))))))))))))))))));
     gop = OpGT; glit = (Zpos (XO (XO (XO (XO (XO (XO (XO (XO (XO (XO (XO (XO
     XH))))))))))))) } :: []))
 
@@ -2140,38 +2155,53 @@ let g_ParseAttributes =
     false)), (String ((Ascii (true, false, true, false, false, true, true,
     false)), (String ((Ascii (false, true, true, true, false, true, true,
     false)), (String ((Ascii (false, false, false, true, false, true, false,
-    false)), (String ((Ascii (false, true, false, false, false, true, true,
+    false)), (String ((Ascii (false, false, true, false, false, true, false,
+    false)), (String ((Ascii (false, false, false, false, true, true, false,
     false)), (String ((Ascii (true, false, false, true, false, true, false,
-    false)), EmptyString)))))))))))); gop = OpGT; glit = Z0 } :: ({ gexpr =
+    false)), EmptyString)))))))))))))); gop = OpGT; glit = Z0 } :: ({ gexpr =
     (String ((Ascii (false, false, true, true, false, true, true, false)),
     (String ((Ascii (true, false, true, false, false, true, true, false)),
     (String ((Ascii (false, true, true, true, false, true, true, false)),
     (String ((Ascii (false, false, false, true, false, true, false, false)),
-    (String ((Ascii (false, true, false, false, false, true, true, false)),
+    (String ((Ascii (false, false, true, false, false, true, false, false)),
+    (String ((Ascii (false, false, false, false, true, true, false, false)),
     (String ((Ascii (true, false, false, true, false, true, false, false)),
-    EmptyString)))))))))))); gop = OpLT; glit = (Zpos (XO
-    XH)) } :: ({ gexpr = (String ((Ascii (false, false, true, true, false,
-    true, true, false)), (String ((Ascii (true, false, true, false, false,
+    EmptyString)))))))))))))); gop = OpLT; glit = (Zpos (XO
+    XH)) } :: ({ gexpr = (String ((Ascii (true, false, false, true, false,
     true, true, false)), (String ((Ascii (false, true, true, true, false,
-    true, true, false)), (String ((Ascii (true, true, true, false, false,
     true, true, false)), (String ((Ascii (false, false, true, false, true,
     true, true, false)), (String ((Ascii (false, false, false, true, false,
-    true, true, false)), EmptyString)))))))))))); gop = OpLT; glit = (Zpos
-    (XO XH)) } :: ({ gexpr = (String ((Ascii (false, false, true, true,
-    false, true, true, false)), (String ((Ascii (true, false, true, false,
+    true, false, false)), (String ((Ascii (false, false, true, false, false,
+    true, false, false)), (String ((Ascii (false, false, false, false, true,
+    true, false, false)), (String ((Ascii (true, true, false, true, true,
+    false, true, false)), (String ((Ascii (true, false, false, false, true,
+    true, false, false)), (String ((Ascii (true, false, true, true, true,
+    false, true, false)), (String ((Ascii (true, false, false, true, false,
+    true, false, false)), EmptyString)))))))))))))))))))); gop = OpLT; glit =
+    (Zpos (XO XH)) } :: ({ gexpr = (String ((Ascii (true, false, false, true,
     false, true, true, false)), (String ((Ascii (false, true, true, true,
-    false, true, true, false)), (String ((Ascii (true, true, true, false,
     false, true, true, false)), (String ((Ascii (false, false, true, false,
     true, true, true, false)), (String ((Ascii (false, false, false, true,
-    false, true, true, false)), EmptyString)))))))))))); gop = OpGT; glit =
-    (Zpos (XI (XI (XI (XI (XI (XI (XI XH)))))))) } :: ({ gexpr = (String
-    ((Ascii (false, false, true, true, false, true, true, false)), (String
-    ((Ascii (true, false, true, false, false, true, true, false)), (String
-    ((Ascii (false, true, true, true, false, true, true, false)), (String
-    ((Ascii (true, true, true, false, false, true, true, false)), (String
-    ((Ascii (false, false, true, false, true, true, true, false)), (String
-    ((Ascii (false, false, false, true, false, true, true, false)),
-    EmptyString)))))))))))); gop = OpGT; glit = (Zpos (XO XH)) } :: []))))
+    false, true, false, false)), (String ((Ascii (false, false, true, false,
+    false, true, false, false)), (String ((Ascii (false, false, false, false,
+    true, true, false, false)), (String ((Ascii (true, true, false, true,
+    true, false, true, false)), (String ((Ascii (true, false, false, false,
+    true, true, false, false)), (String ((Ascii (true, false, true, true,
+    true, false, true, false)), (String ((Ascii (true, false, false, true,
+    false, true, false, false)), EmptyString)))))))))))))))))))); gop = OpGT;
+    glit = (Zpos (XI (XI (XI (XI (XI (XI (XI XH)))))))) } :: ({ gexpr =
+    (String ((Ascii (true, false, false, true, false, true, true, false)),
+    (String ((Ascii (false, true, true, true, false, true, true, false)),
+    (String ((Ascii (false, false, true, false, true, true, true, false)),
+    (String ((Ascii (false, false, false, true, false, true, false, false)),
+    (String ((Ascii (false, false, true, false, false, true, false, false)),
+    (String ((Ascii (false, false, false, false, true, true, false, false)),
+    (String ((Ascii (true, true, false, true, true, false, true, false)),
+    (String ((Ascii (true, false, false, false, true, true, false, false)),
+    (String ((Ascii (true, false, true, true, true, false, true, false)),
+    (String ((Ascii (true, false, false, true, false, true, false, false)),
+    EmptyString)))))))))))))))))))); gop = OpGT; glit = (Zpos (XO
+    XH)) } :: []))))
 
 (** val g_Short : guard list **)
 
@@ -2180,9 +2210,10 @@ let g_Short =
     false)), (String ((Ascii (true, false, true, false, false, true, true,
     false)), (String ((Ascii (false, true, true, true, false, true, true,
     false)), (String ((Ascii (false, false, false, true, false, true, false,
-    false)), (String ((Ascii (true, false, false, false, false, true, true,
+    false)), (String ((Ascii (false, false, true, false, false, true, false,
+    false)), (String ((Ascii (false, false, false, false, true, true, false,
     false)), (String ((Ascii (true, false, false, true, false, true, false,
-    false)), EmptyString)))))))))))); gop = OpNE; glit = (Zpos (XO
+    false)), EmptyString)))))))))))))); gop = OpNE; glit = (Zpos (XO
     XH)) } :: []
 
 (** val g_TLV : guard list **)
@@ -2192,16 +2223,18 @@ let g_TLV =
     false)), (String ((Ascii (true, false, true, false, false, true, true,
     false)), (String ((Ascii (false, true, true, true, false, true, true,
     false)), (String ((Ascii (false, false, false, true, false, true, false,
-    false)), (String ((Ascii (true, false, false, false, false, true, true,
+    false)), (String ((Ascii (false, false, true, false, false, true, false,
+    false)), (String ((Ascii (false, false, false, false, true, true, false,
     false)), (String ((Ascii (true, false, false, true, false, true, false,
-    false)), EmptyString)))))))))))); gop = OpLT; glit = (Zpos (XI
+    false)), EmptyString)))))))))))))); gop = OpLT; glit = (Zpos (XI
     XH)) } :: ({ gexpr = (String ((Ascii (false, false, true, true, false,
     true, true, false)), (String ((Ascii (true, false, true, false, false,
     true, true, false)), (String ((Ascii (false, true, true, true, false,
     true, true, false)), (String ((Ascii (false, false, false, true, false,
-    true, false, false)), (String ((Ascii (true, false, false, false, false,
-    true, true, false)), (String ((Ascii (true, false, false, true, false,
-    true, false, false)), EmptyString)))))))))))); gop = OpGT; glit = (Zpos
+    true, false, false)), (String ((Ascii (false, false, true, false, false,
+    true, false, false)), (String ((Ascii (false, false, false, false, true,
+    true, false, false)), (String ((Ascii (true, false, false, true, false,
+    true, false, false)), EmptyString)))))))))))))); gop = OpGT; glit = (Zpos
     (XI (XI (XI (XI (XI (XI (XI XH)))))))) } :: [])
 
 (** val g_TunnelPassword : guard list **)
@@ -2211,23 +2244,26 @@ let g_TunnelPassword =
     false)), (String ((Ascii (true, false, true, false, false, true, true,
     false)), (String ((Ascii (false, true, true, true, false, true, true,
     false)), (String ((Ascii (false, false, false, true, false, true, false,
-    false)), (String ((Ascii (true, false, false, false, false, true, true,
+    false)), (String ((Ascii (false, false, true, false, false, true, false,
+    false)), (String ((Ascii (false, false, false, false, true, true, false,
     false)), (String ((Ascii (true, false, false, true, false, true, false,
-    false)), EmptyString)))))))))))); gop = OpGT; glit = (Zpos (XO (XO (XI
+    false)), EmptyString)))))))))))))); gop = OpGT; glit = (Zpos (XO (XO (XI
     (XI (XI (XI (XI XH)))))))) } :: ({ gexpr = (String ((Ascii (false, false,
     true, true, false, true, true, false)), (String ((Ascii (true, false,
     true, false, false, true, true, false)), (String ((Ascii (false, true,
     true, true, false, true, true, false)), (String ((Ascii (false, false,
-    false, true, false, true, false, false)), (String ((Ascii (true, false,
-    false, false, false, true, true, false)), (String ((Ascii (true, false,
-    false, true, false, true, false, false)), EmptyString)))))))))))); gop =
-    OpLT; glit = (Zpos (XO (XI (XO (XO XH))))) } :: ({ gexpr = (String
+    false, true, false, true, false, false)), (String ((Ascii (false, false,
+    true, false, false, true, false, false)), (String ((Ascii (false, false,
+    false, false, true, true, false, false)), (String ((Ascii (true, false,
+    false, true, false, true, false, false)), EmptyString))))))))))))));
+    gop = OpLT; glit = (Zpos (XO (XI (XO (XO XH))))) } :: ({ gexpr = (String
     ((Ascii (false, false, false, true, false, true, false, false)), (String
     ((Ascii (false, false, true, true, false, true, true, false)), (String
     ((Ascii (true, false, true, false, false, true, true, false)), (String
     ((Ascii (false, true, true, true, false, true, true, false)), (String
     ((Ascii (false, false, false, true, false, true, false, false)), (String
-    ((Ascii (true, false, false, false, false, true, true, false)), (String
+    ((Ascii (false, false, true, false, false, true, false, false)), (String
+    ((Ascii (false, false, false, false, true, true, false, false)), (String
     ((Ascii (true, false, false, true, false, true, false, false)), (String
     ((Ascii (false, false, false, false, false, true, false, false)), (String
     ((Ascii (true, false, true, true, false, true, false, false)), (String
@@ -2239,59 +2275,37 @@ let g_TunnelPassword =
     ((Ascii (false, false, false, false, false, true, false, false)), (String
     ((Ascii (true, false, false, false, true, true, false, false)), (String
     ((Ascii (false, true, true, false, true, true, false, false)),
-    EmptyString)))))))))))))))))))))))))))))))))); gop = OpNE; glit =
+    EmptyString)))))))))))))))))))))))))))))))))))); gop = OpNE; glit =
     Z0 } :: ({ gexpr = (String ((Ascii (false, false, true, true, false,
     true, true, false)), (String ((Ascii (true, false, true, false, false,
     true, true, false)), (String ((Ascii (false, true, true, true, false,
     true, true, false)), (String ((Ascii (false, false, false, true, false,
-    true, false, false)), (String ((Ascii (true, true, false, false, true,
+    true, false, false)), (String ((Ascii (false, false, true, false, false,
+    true, false, false)), (String ((Ascii (true, false, false, false, true,
+    true, false, false)), (String ((Ascii (true, false, false, true, false,
+    true, false, false)), EmptyString)))))))))))))); gop = OpEQ; glit =
+    Z0 } :: ({ gexpr = (String ((Ascii (false, false, true, true, false,
     true, true, false)), (String ((Ascii (true, false, true, false, false,
-    true, true, false)), (String ((Ascii (true, true, false, false, false,
-    true, true, false)), (String ((Ascii (false, true, false, false, true,
-    true, true, false)), (String ((Ascii (true, false, true, false, false,
-    true, true, false)), (String ((Ascii (false, false, true, false, true,
-    true, true, false)), (String ((Ascii (true, false, false, true, false,
-    true, false, false)), EmptyString)))))))))))))))))))))); gop = OpEQ;
-    glit = Z0 } :: ({ gexpr = (String ((Ascii (false, false, true, true,
-    false, true, true, false)), (String ((Ascii (true, false, true, false,
-    false, true, true, false)), (String ((Ascii (false, true, true, true,
-    false, true, true, false)), (String ((Ascii (false, false, false, true,
-    false, true, false, false)), (String ((Ascii (false, true, false, false,
-    true, true, true, false)), (String ((Ascii (true, false, true, false,
-    false, true, true, false)), (String ((Ascii (true, false, false, false,
-    true, true, true, false)), (String ((Ascii (true, false, true, false,
-    true, true, true, false)), (String ((Ascii (true, false, true, false,
-    false, true, true, false)), (String ((Ascii (true, true, false, false,
-    true, true, true, false)), (String ((Ascii (false, false, true, false,
-    true, true, true, false)), (String ((Ascii (true, false, false, false,
-    false, false, true, false)), (String ((Ascii (true, false, true, false,
-    true, true, true, false)), (String ((Ascii (false, false, true, false,
-    true, true, true, false)), (String ((Ascii (false, false, false, true,
-    false, true, true, false)), (String ((Ascii (true, false, true, false,
-    false, true, true, false)), (String ((Ascii (false, true, true, true,
-    false, true, true, false)), (String ((Ascii (false, false, true, false,
-    true, true, true, false)), (String ((Ascii (true, false, false, true,
-    false, true, true, false)), (String ((Ascii (true, true, false, false,
-    false, true, true, false)), (String ((Ascii (true, false, false, false,
-    false, true, true, false)), (String ((Ascii (false, false, true, false,
-    true, true, true, false)), (String ((Ascii (true, true, true, true,
-    false, true, true, false)), (String ((Ascii (false, true, false, false,
-    true, true, true, false)), (String ((Ascii (true, false, false, true,
-    false, true, false, false)),
-    EmptyString)))))))))))))))))))))))))))))))))))))))))))))))))); gop =
-    OpNE; glit = (Zpos (XO (XO (XO (XO XH))))) } :: ({ gexpr = (String
-    ((Ascii (true, false, false, false, false, true, true, false)), (String
-    ((Ascii (true, true, false, true, true, false, true, false)), (String
-    ((Ascii (false, false, false, false, true, true, false, false)), (String
-    ((Ascii (true, false, true, true, true, false, true, false)), (String
-    ((Ascii (false, false, false, false, false, true, false, false)), (String
-    ((Ascii (false, true, true, false, false, true, false, false)), (String
-    ((Ascii (false, false, false, false, false, true, false, false)), (String
-    ((Ascii (false, false, false, false, true, true, false, false)), (String
-    ((Ascii (false, false, false, true, true, true, true, false)), (String
-    ((Ascii (false, false, false, true, true, true, false, false)), (String
-    ((Ascii (false, false, false, false, true, true, false, false)),
-    EmptyString)))))))))))))))))))))); gop = OpNE; glit = (Zpos (XO (XO (XO
+    true, true, false)), (String ((Ascii (false, true, true, true, false,
+    true, true, false)), (String ((Ascii (false, false, false, true, false,
+    true, false, false)), (String ((Ascii (false, false, true, false, false,
+    true, false, false)), (String ((Ascii (false, true, false, false, true,
+    true, false, false)), (String ((Ascii (true, false, false, true, false,
+    true, false, false)), EmptyString)))))))))))))); gop = OpNE; glit = (Zpos
+    (XO (XO (XO (XO XH))))) } :: ({ gexpr = (String ((Ascii (false, false,
+    true, false, false, true, false, false)), (String ((Ascii (false, false,
+    false, false, true, true, false, false)), (String ((Ascii (true, true,
+    false, true, true, false, true, false)), (String ((Ascii (false, false,
+    false, false, true, true, false, false)), (String ((Ascii (true, false,
+    true, true, true, false, true, false)), (String ((Ascii (false, false,
+    false, false, false, true, false, false)), (String ((Ascii (false, true,
+    true, false, false, true, false, false)), (String ((Ascii (false, false,
+    false, false, false, true, false, false)), (String ((Ascii (false, false,
+    false, false, true, true, false, false)), (String ((Ascii (false, false,
+    false, true, true, true, true, false)), (String ((Ascii (false, false,
+    false, true, true, true, false, false)), (String ((Ascii (false, false,
+    false, false, true, true, false, false)),
+    EmptyString)))))))))))))))))))))))); gop = OpNE; glit = (Zpos (XO (XO (XO
     (XO (XO (XO (XO XH)))))))) } :: ({ gexpr = (String ((Ascii (true, true,
     false, false, false, true, true, false)), (String ((Ascii (false, false,
     false, true, false, true, true, false)), (String ((Ascii (true, false,
@@ -2309,70 +2323,51 @@ let g_UserPassword =
     false)), (String ((Ascii (true, false, true, false, false, true, true,
     false)), (String ((Ascii (false, true, true, true, false, true, true,
     false)), (String ((Ascii (false, false, false, true, false, true, false,
-    false)), (String ((Ascii (true, false, false, false, false, true, true,
+    false)), (String ((Ascii (false, false, true, false, false, true, false,
+    false)), (String ((Ascii (false, false, false, false, true, true, false,
     false)), (String ((Ascii (true, false, false, true, false, true, false,
-    false)), EmptyString)))))))))))); gop = OpLT; glit = (Zpos (XO (XO (XO
+    false)), EmptyString)))))))))))))); gop = OpLT; glit = (Zpos (XO (XO (XO
     (XO XH))))) } :: ({ gexpr = (String ((Ascii (false, false, true, true,
     false, true, true, false)), (String ((Ascii (true, false, true, false,
     false, true, true, false)), (String ((Ascii (false, true, true, true,
     false, true, true, false)), (String ((Ascii (false, false, false, true,
-    false, true, false, false)), (String ((Ascii (true, false, false, false,
-    false, true, true, false)), (String ((Ascii (true, false, false, true,
-    false, true, false, false)), EmptyString)))))))))))); gop = OpGT; glit =
-    (Zpos (XO (XO (XO (XO (XO (XO (XO XH)))))))) } :: ({ gexpr = (String
-    ((Ascii (false, false, true, true, false, true, true, false)), (String
-    ((Ascii (true, false, true, false, false, true, true, false)), (String
-    ((Ascii (false, true, true, true, false, true, true, false)), (String
-    ((Ascii (false, false, false, true, false, true, false, false)), (String
-    ((Ascii (true, false, false, false, false, true, true, false)), (String
-    ((Ascii (true, false, false, true, false, true, false, false)), (String
-    ((Ascii (false, false, false, false, false, true, false, false)), (String
-    ((Ascii (true, false, true, false, false, true, false, false)), (String
-    ((Ascii (false, false, false, false, false, true, false, false)), (String
-    ((Ascii (true, false, false, false, true, true, false, false)), (String
-    ((Ascii (false, true, true, false, true, true, false, false)),
-    EmptyString)))))))))))))))))))))); gop = OpNE; glit = Z0 } :: ({ gexpr =
+    false, true, false, false)), (String ((Ascii (false, false, true, false,
+    false, true, false, false)), (String ((Ascii (false, false, false, false,
+    true, true, false, false)), (String ((Ascii (true, false, false, true,
+    false, true, false, false)), EmptyString)))))))))))))); gop = OpGT;
+    glit = (Zpos (XO (XO (XO (XO (XO (XO (XO XH)))))))) } :: ({ gexpr =
     (String ((Ascii (false, false, true, true, false, true, true, false)),
     (String ((Ascii (true, false, true, false, false, true, true, false)),
     (String ((Ascii (false, true, true, true, false, true, true, false)),
     (String ((Ascii (false, false, false, true, false, true, false, false)),
-    (String ((Ascii (true, true, false, false, true, true, true, false)),
-    (String ((Ascii (true, false, true, false, false, true, true, false)),
-    (String ((Ascii (true, true, false, false, false, true, true, false)),
-    (String ((Ascii (false, true, false, false, true, true, true, false)),
-    (String ((Ascii (true, false, true, false, false, true, true, false)),
-    (String ((Ascii (false, false, true, false, true, true, true, false)),
+    (String ((Ascii (false, false, true, false, false, true, false, false)),
+    (String ((Ascii (false, false, false, false, true, true, false, false)),
     (String ((Ascii (true, false, false, true, false, true, false, false)),
-    EmptyString)))))))))))))))))))))); gop = OpEQ; glit = Z0 } :: ({ gexpr =
-    (String ((Ascii (false, false, true, true, false, true, true, false)),
-    (String ((Ascii (true, false, true, false, false, true, true, false)),
-    (String ((Ascii (false, true, true, true, false, true, true, false)),
-    (String ((Ascii (false, false, false, true, false, true, false, false)),
-    (String ((Ascii (false, true, false, false, true, true, true, false)),
-    (String ((Ascii (true, false, true, false, false, true, true, false)),
-    (String ((Ascii (true, false, false, false, true, true, true, false)),
-    (String ((Ascii (true, false, true, false, true, true, true, false)),
-    (String ((Ascii (true, false, true, false, false, true, true, false)),
-    (String ((Ascii (true, true, false, false, true, true, true, false)),
-    (String ((Ascii (false, false, true, false, true, true, true, false)),
-    (String ((Ascii (true, false, false, false, false, false, true, false)),
-    (String ((Ascii (true, false, true, false, true, true, true, false)),
-    (String ((Ascii (false, false, true, false, true, true, true, false)),
-    (String ((Ascii (false, false, false, true, false, true, true, false)),
-    (String ((Ascii (true, false, true, false, false, true, true, false)),
-    (String ((Ascii (false, true, true, true, false, true, true, false)),
-    (String ((Ascii (false, false, true, false, true, true, true, false)),
-    (String ((Ascii (true, false, false, true, false, true, true, false)),
-    (String ((Ascii (true, true, false, false, false, true, true, false)),
-    (String ((Ascii (true, false, false, false, false, true, true, false)),
-    (String ((Ascii (false, false, true, false, true, true, true, false)),
-    (String ((Ascii (true, true, true, true, false, true, true, false)),
-    (String ((Ascii (false, true, false, false, true, true, true, false)),
-    (String ((Ascii (true, false, false, true, false, true, false, false)),
-    EmptyString)))))))))))))))))))))))))))))))))))))))))))))))))); gop =
-    OpNE; glit = (Zpos (XO (XO (XO (XO XH))))) } :: ({ gexpr = (String
-    ((Ascii (true, false, false, true, false, true, true, false)),
-    EmptyString)); gop = OpGT; glit = (Zneg XH) } :: [])))))
+    (String ((Ascii (false, false, false, false, false, true, false, false)),
+    (String ((Ascii (true, false, true, false, false, true, false, false)),
+    (String ((Ascii (false, false, false, false, false, true, false, false)),
+    (String ((Ascii (true, false, false, false, true, true, false, false)),
+    (String ((Ascii (false, true, true, false, true, true, false, false)),
+    EmptyString)))))))))))))))))))))))); gop = OpNE; glit =
+    Z0 } :: ({ gexpr = (String ((Ascii (false, false, true, true, false,
+    true, true, false)), (String ((Ascii (true, false, true, false, false,
+    true, true, false)), (String ((Ascii (false, true, true, true, false,
+    true, true, false)), (String ((Ascii (false, false, false, true, false,
+    true, false, false)), (String ((Ascii (false, false, true, false, false,
+    true, false, false)), (String ((Ascii (true, false, false, false, true,
+    true, false, false)), (String ((Ascii (true, false, false, true, false,
+    true, false, false)), EmptyString)))))))))))))); gop = OpEQ; glit =
+    Z0 } :: ({ gexpr = (String ((Ascii (false, false, true, true, false,
+    true, true, false)), (String ((Ascii (true, false, true, false, false,
+    true, true, false)), (String ((Ascii (false, true, true, true, false,
+    true, true, false)), (String ((Ascii (false, false, false, true, false,
+    true, false, false)), (String ((Ascii (false, false, true, false, false,
+    true, false, false)), (String ((Ascii (false, true, false, false, true,
+    true, false, false)), (String ((Ascii (true, false, false, true, false,
+    true, false, false)), EmptyString)))))))))))))); gop = OpNE; glit = (Zpos
+    (XO (XO (XO (XO XH))))) } :: ({ gexpr = (String ((Ascii (true, false,
+    false, true, false, true, true, false)), EmptyString)); gop = OpGT;
+    glit = (Zneg XH) } :: [])))))
 
 (** val g_VendorSpecific : guard list **)
 
@@ -2381,9 +2376,10 @@ let g_VendorSpecific =
     false)), (String ((Ascii (true, false, true, false, false, true, true,
     false)), (String ((Ascii (false, true, true, true, false, true, true,
     false)), (String ((Ascii (false, false, false, true, false, true, false,
-    false)), (String ((Ascii (true, false, false, false, false, true, true,
+    false)), (String ((Ascii (false, false, true, false, false, true, false,
+    false)), (String ((Ascii (false, false, false, false, true, true, false,
     false)), (String ((Ascii (true, false, false, true, false, true, false,
-    false)), EmptyString)))))))))))); gop = OpLT; glit = (Zpos (XI (XO
+    false)), EmptyString)))))))))))))); gop = OpLT; glit = (Zpos (XI (XO
     XH))) } :: []
 
 (** val b_rfc2759_magic1 : n list **)
@@ -2653,18 +2649,11 @@ let g_rfc3079_GetAsymmetricStartKey =
     false)), (String ((Ascii (true, false, true, false, false, true, true,
     false)), (String ((Ascii (false, true, true, true, false, true, true,
     false)), (String ((Ascii (false, false, false, true, false, true, false,
-    false)), (String ((Ascii (true, false, true, true, false, true, true,
-    false)), (String ((Ascii (true, false, false, false, false, true, true,
-    false)), (String ((Ascii (true, true, false, false, true, true, true,
-    false)), (String ((Ascii (false, false, true, false, true, true, true,
-    false)), (String ((Ascii (true, false, true, false, false, true, true,
-    false)), (String ((Ascii (false, true, false, false, true, true, true,
-    false)), (String ((Ascii (true, true, false, true, false, false, true,
-    false)), (String ((Ascii (true, false, true, false, false, true, true,
-    false)), (String ((Ascii (true, false, false, true, true, true, true,
+    false)), (String ((Ascii (false, false, true, false, false, true, false,
+    false)), (String ((Ascii (false, false, false, false, true, true, false,
     false)), (String ((Ascii (true, false, false, true, false, true, false,
-    false)), EmptyString)))))))))))))))))))))))))))); gop = OpNE; glit =
-    (Zpos (XO (XO (XO (XO XH))))) } :: []
+    false)), EmptyString)))))))))))))); gop = OpNE; glit = (Zpos (XO (XO (XO
+    (XO XH))))) } :: []
 
 (** val g_rfc3079_MakeKey : guard list **)
 
@@ -2673,19 +2662,11 @@ let g_rfc3079_MakeKey =
     false)), (String ((Ascii (true, false, true, false, false, true, true,
     false)), (String ((Ascii (false, true, true, true, false, true, true,
     false)), (String ((Ascii (false, false, false, true, false, true, false,
-    false)), (String ((Ascii (false, true, true, true, false, true, true,
-    false)), (String ((Ascii (false, false, true, false, true, true, true,
-    false)), (String ((Ascii (false, true, false, false, true, false, true,
-    false)), (String ((Ascii (true, false, true, false, false, true, true,
-    false)), (String ((Ascii (true, true, false, false, true, true, true,
-    false)), (String ((Ascii (false, false, false, false, true, true, true,
-    false)), (String ((Ascii (true, true, true, true, false, true, true,
-    false)), (String ((Ascii (false, true, true, true, false, true, true,
-    false)), (String ((Ascii (true, true, false, false, true, true, true,
-    false)), (String ((Ascii (true, false, true, false, false, true, true,
+    false)), (String ((Ascii (false, false, true, false, false, true, false,
+    false)), (String ((Ascii (false, false, false, false, true, true, false,
     false)), (String ((Ascii (true, false, false, true, false, true, false,
-    false)), EmptyString)))))))))))))))))))))))))))))); gop = OpNE; glit =
-    (Zpos (XO (XO (XO (XI XH))))) } :: []
+    false)), EmptyString)))))))))))))); gop = OpNE; glit = (Zpos (XO (XO (XO
+    (XI XH))))) } :: []
 
 (** val k_dictionary_AttributeOctets : z **)
 
@@ -2704,48 +2685,67 @@ let g_dictionary_Parser_parseAttribute =
     false)), (String ((Ascii (true, false, true, false, false, true, true,
     false)), (String ((Ascii (false, true, true, true, false, true, true,
     false)), (String ((Ascii (false, false, false, true, false, true, false,
-    false)), (String ((Ascii (true, true, true, true, false, true, true,
-    false)), (String ((Ascii (true, false, false, true, false, true, true,
-    false)), (String ((Ascii (false, false, true, false, false, true, true,
+    false)), (String ((Ascii (false, false, false, false, true, true, true,
+    false)), (String ((Ascii (true, false, false, false, false, true, true,
+    false)), (String ((Ascii (false, true, false, false, true, true, true,
+    false)), (String ((Ascii (true, true, false, false, true, true, true,
+    false)), (String ((Ascii (true, false, true, false, false, true, true,
+    false)), (String ((Ascii (true, true, true, true, false, false, true,
+    false)), (String ((Ascii (true, false, false, true, false, false, true,
+    false)), (String ((Ascii (false, false, true, false, false, false, true,
+    false)), (String ((Ascii (false, false, false, true, false, true, false,
+    false)), (String ((Ascii (false, false, true, false, false, true, false,
+    false)), (String ((Ascii (false, false, false, false, true, true, false,
+    false)), (String ((Ascii (true, true, false, true, true, false, true,
+    false)), (String ((Ascii (false, true, false, false, true, true, false,
+    false)), (String ((Ascii (true, false, true, true, true, false, true,
     false)), (String ((Ascii (true, false, false, true, false, true, false,
-    false)), EmptyString)))))))))))))))); gop = OpEQ; glit =
-    Z0 } :: ({ gexpr = (String ((Ascii (false, false, true, true, false,
-    true, true, false)), (String ((Ascii (true, false, true, false, false,
-    true, true, false)), (String ((Ascii (false, true, true, true, false,
-    true, true, false)), (String ((Ascii (false, false, false, true, false,
-    true, false, false)), (String ((Ascii (false, true, true, false, false,
-    true, true, false)), (String ((Ascii (true, true, false, true, true,
-    false, true, false)), (String ((Ascii (true, true, false, false, true,
-    true, false, false)), (String ((Ascii (true, false, true, true, true,
-    false, true, false)), (String ((Ascii (true, false, false, true, false,
-    true, false, false)), EmptyString)))))))))))))))))); gop = OpGT; glit =
-    (Zpos (XO (XO (XO XH)))) } :: ({ gexpr = (String ((Ascii (false, true,
-    true, false, false, true, true, false)), (String ((Ascii (true, true,
-    false, true, true, false, true, false)), (String ((Ascii (true, true,
-    false, false, true, true, false, false)), (String ((Ascii (true, false,
-    true, true, true, false, true, false)), (String ((Ascii (true, true,
-    false, true, true, false, true, false)), (String ((Ascii (false, false,
-    true, true, false, true, true, false)), (String ((Ascii (true, false,
-    true, false, false, true, true, false)), (String ((Ascii (false, true,
-    true, true, false, true, true, false)), (String ((Ascii (false, false,
-    false, true, false, true, false, false)), (String ((Ascii (false, true,
-    true, false, false, true, true, false)), (String ((Ascii (true, true,
-    false, true, true, false, true, false)), (String ((Ascii (true, true,
-    false, false, true, true, false, false)), (String ((Ascii (true, false,
-    true, true, true, false, true, false)), (String ((Ascii (true, false,
-    false, true, false, true, false, false)), (String ((Ascii (true, false,
-    true, true, false, true, false, false)), (String ((Ascii (true, false,
-    false, false, true, true, false, false)), (String ((Ascii (true, false,
-    true, true, true, false, true, false)),
-    EmptyString)))))))))))))))))))))))))))))))))); gop = OpEQ; glit = (Zpos
-    (XI (XO (XI (XI (XI (XO XH))))))) } :: ({ gexpr = (String ((Ascii (false,
+    false)), (String ((Ascii (true, false, false, true, false, true, false,
+    false)), EmptyString)))))))))))))))))))))))))))))))))))))))); gop = OpEQ;
+    glit = Z0 } :: ({ gexpr = (String ((Ascii (false, false, true, true,
+    false, true, true, false)), (String ((Ascii (true, false, true, false,
+    false, true, true, false)), (String ((Ascii (false, true, true, true,
+    false, true, true, false)), (String ((Ascii (false, false, false, true,
+    false, true, false, false)), (String ((Ascii (false, false, true, false,
+    false, true, false, false)), (String ((Ascii (false, false, false, false,
+    true, true, false, false)), (String ((Ascii (true, true, false, true,
+    true, false, true, false)), (String ((Ascii (true, true, false, false,
+    true, true, false, false)), (String ((Ascii (true, false, true, true,
+    true, false, true, false)), (String ((Ascii (true, false, false, true,
+    false, true, false, false)), EmptyString)))))))))))))))))))); gop = OpGT;
+    glit = (Zpos (XO (XO (XO XH)))) } :: ({ gexpr = (String ((Ascii (false,
+    false, true, false, false, true, false, false)), (String ((Ascii (false,
+    false, false, false, true, true, false, false)), (String ((Ascii (true,
+    true, false, true, true, false, true, false)), (String ((Ascii (true,
+    true, false, false, true, true, false, false)), (String ((Ascii (true,
+    false, true, true, true, false, true, false)), (String ((Ascii (true,
+    true, false, true, true, false, true, false)), (String ((Ascii (false,
     false, true, true, false, true, true, false)), (String ((Ascii (true,
     false, true, false, false, true, true, false)), (String ((Ascii (false,
     true, true, true, false, true, true, false)), (String ((Ascii (false,
     false, false, true, false, true, false, false)), (String ((Ascii (false,
-    true, true, false, false, true, true, false)), (String ((Ascii (true,
-    false, false, true, false, true, false, false)), EmptyString))))))))))));
-    gop = OpGE; glit = (Zpos (XI (XO XH))) } :: [])))
+    false, true, false, false, true, false, false)), (String ((Ascii (false,
+    false, false, false, true, true, false, false)), (String ((Ascii (true,
+    true, false, true, true, false, true, false)), (String ((Ascii (true,
+    true, false, false, true, true, false, false)), (String ((Ascii (true,
+    false, true, true, true, false, true, false)), (String ((Ascii (true,
+    false, false, true, false, true, false, false)), (String ((Ascii (false,
+    false, false, false, false, true, false, false)), (String ((Ascii (true,
+    false, true, true, false, true, false, false)), (String ((Ascii (false,
+    false, false, false, false, true, false, false)), (String ((Ascii (true,
+    false, false, false, true, true, false, false)), (String ((Ascii (true,
+    false, true, true, true, false, true, false)),
+    EmptyString)))))))))))))))))))))))))))))))))))))))))); gop = OpEQ; glit =
+    (Zpos (XI (XO (XI (XI (XI (XO XH))))))) } :: ({ gexpr = (String ((Ascii
+    (false, false, true, true, false, true, true, false)), (String ((Ascii
+    (true, false, true, false, false, true, true, false)), (String ((Ascii
+    (false, true, true, true, false, true, true, false)), (String ((Ascii
+    (false, false, false, true, false, true, false, false)), (String ((Ascii
+    (false, false, true, false, false, true, false, false)), (String ((Ascii
+    (false, false, false, false, true, true, false, false)), (String ((Ascii
+    (true, false, false, true, false, true, false, false)),
+    EmptyString)))))))))))))); gop = OpGE; glit = (Zpos (XI (XO
+    XH))) } :: [])))
 
 (** val g_dictionary_Parser_parseVendor : guard list **)
 
@@ -2754,70 +2754,78 @@ let g_dictionary_Parser_parseVendor =
     false)), (String ((Ascii (true, false, true, false, false, true, true,
     false)), (String ((Ascii (false, true, true, true, false, true, true,
     false)), (String ((Ascii (false, false, false, true, false, true, false,
-    false)), (String ((Ascii (false, true, true, false, false, true, true,
+    false)), (String ((Ascii (false, false, true, false, false, true, false,
+    false)), (String ((Ascii (false, false, false, false, true, true, false,
     false)), (String ((Ascii (true, false, false, true, false, true, false,
-    false)), EmptyString)))))))))))); gop = OpEQ; glit = (Zpos (XO (XO
+    false)), EmptyString)))))))))))))); gop = OpEQ; glit = (Zpos (XO (XO
     XH))) } :: ({ gexpr = (String ((Ascii (false, false, true, true, false,
     true, true, false)), (String ((Ascii (true, false, true, false, false,
     true, true, false)), (String ((Ascii (false, true, true, true, false,
     true, true, false)), (String ((Ascii (false, false, false, true, false,
-    true, false, false)), (String ((Ascii (false, true, true, false, false,
-    true, true, false)), (String ((Ascii (true, true, false, true, true,
+    true, false, false)), (String ((Ascii (false, false, true, false, false,
+    true, false, false)), (String ((Ascii (false, false, false, false, true,
+    true, false, false)), (String ((Ascii (true, true, false, true, true,
     false, true, false)), (String ((Ascii (true, true, false, false, true,
     true, false, false)), (String ((Ascii (true, false, true, true, true,
     false, true, false)), (String ((Ascii (true, false, false, true, false,
-    true, false, false)), EmptyString)))))))))))))))))); gop = OpNE; glit =
-    (Zpos (XO (XI (XO XH)))) } :: ({ gexpr = (String ((Ascii (false, true,
-    true, false, false, true, true, false)), (String ((Ascii (true, true,
+    true, false, false)), EmptyString)))))))))))))))))))); gop = OpNE; glit =
+    (Zpos (XO (XI (XO XH)))) } :: ({ gexpr = (String ((Ascii (false, false,
+    true, false, false, true, false, false)), (String ((Ascii (false, false,
+    false, false, true, true, false, false)), (String ((Ascii (true, true,
     false, true, true, false, true, false)), (String ((Ascii (true, true,
     false, false, true, true, false, false)), (String ((Ascii (true, false,
     true, true, true, false, true, false)), (String ((Ascii (true, true,
     false, true, true, false, true, false)), (String ((Ascii (false, false,
     false, true, true, true, false, false)), (String ((Ascii (true, false,
-    true, true, true, false, true, false)), EmptyString)))))))))))))); gop =
-    OpNE; glit = (Zpos (XO (XO (XI (XI (XO XH)))))) } :: ({ gexpr = (String
-    ((Ascii (false, true, true, false, false, true, true, false)), (String
-    ((Ascii (true, true, false, true, true, false, true, false)), (String
-    ((Ascii (true, true, false, false, true, true, false, false)), (String
-    ((Ascii (true, false, true, true, true, false, true, false)), (String
-    ((Ascii (true, true, false, true, true, false, true, false)), (String
-    ((Ascii (true, true, true, false, true, true, false, false)), (String
-    ((Ascii (true, false, true, true, true, false, true, false)),
-    EmptyString)))))))))))))); gop = OpNE; glit = (Zpos (XI (XO (XO (XO (XI
-    XH)))))) } :: ({ gexpr = (String ((Ascii (false, true, true, false,
-    false, true, true, false)), (String ((Ascii (true, true, false, true,
+    true, true, true, false, true, false)), EmptyString))))))))))))))));
+    gop = OpNE; glit = (Zpos (XO (XO (XI (XI (XO XH)))))) } :: ({ gexpr =
+    (String ((Ascii (false, false, true, false, false, true, false, false)),
+    (String ((Ascii (false, false, false, false, true, true, false, false)),
+    (String ((Ascii (true, true, false, true, true, false, true, false)),
+    (String ((Ascii (true, true, false, false, true, true, false, false)),
+    (String ((Ascii (true, false, true, true, true, false, true, false)),
+    (String ((Ascii (true, true, false, true, true, false, true, false)),
+    (String ((Ascii (true, true, true, false, true, true, false, false)),
+    (String ((Ascii (true, false, true, true, true, false, true, false)),
+    EmptyString)))))))))))))))); gop = OpNE; glit = (Zpos (XI (XO (XO (XO (XI
+    XH)))))) } :: ({ gexpr = (String ((Ascii (false, false, true, false,
+    false, true, false, false)), (String ((Ascii (false, false, false, false,
+    true, true, false, false)), (String ((Ascii (true, true, false, true,
     true, false, true, false)), (String ((Ascii (true, true, false, false,
     true, true, false, false)), (String ((Ascii (true, false, true, true,
     true, false, true, false)), (String ((Ascii (true, true, false, true,
     true, false, true, false)), (String ((Ascii (true, true, true, false,
     true, true, false, false)), (String ((Ascii (true, false, true, true,
-    true, false, true, false)), EmptyString)))))))))))))); gop = OpNE; glit =
-    (Zpos (XO (XI (XO (XO (XI XH)))))) } :: ({ gexpr = (String ((Ascii
-    (false, true, true, false, false, true, true, false)), (String ((Ascii
+    true, false, true, false)), EmptyString)))))))))))))))); gop = OpNE;
+    glit = (Zpos (XO (XI (XO (XO (XI XH)))))) } :: ({ gexpr = (String ((Ascii
+    (false, false, true, false, false, true, false, false)), (String ((Ascii
+    (false, false, false, false, true, true, false, false)), (String ((Ascii
     (true, true, false, true, true, false, true, false)), (String ((Ascii
     (true, true, false, false, true, true, false, false)), (String ((Ascii
     (true, false, true, true, true, false, true, false)), (String ((Ascii
     (true, true, false, true, true, false, true, false)), (String ((Ascii
     (true, true, true, false, true, true, false, false)), (String ((Ascii
     (true, false, true, true, true, false, true, false)),
-    EmptyString)))))))))))))); gop = OpNE; glit = (Zpos (XO (XO (XI (XO (XI
-    XH)))))) } :: ({ gexpr = (String ((Ascii (false, true, true, false,
-    false, true, true, false)), (String ((Ascii (true, true, false, true,
+    EmptyString)))))))))))))))); gop = OpNE; glit = (Zpos (XO (XO (XI (XO (XI
+    XH)))))) } :: ({ gexpr = (String ((Ascii (false, false, true, false,
+    false, true, false, false)), (String ((Ascii (false, false, false, false,
+    true, true, false, false)), (String ((Ascii (true, true, false, true,
     true, false, true, false)), (String ((Ascii (true, true, false, false,
     true, true, false, false)), (String ((Ascii (true, false, true, true,
     true, false, true, false)), (String ((Ascii (true, true, false, true,
     true, false, true, false)), (String ((Ascii (true, false, false, true,
     true, true, false, false)), (String ((Ascii (true, false, true, true,
-    true, false, true, false)), EmptyString)))))))))))))); gop = OpLT; glit =
-    (Zpos (XO (XO (XO (XO (XI XH)))))) } :: ({ gexpr = (String ((Ascii
-    (false, true, true, false, false, true, true, false)), (String ((Ascii
+    true, false, true, false)), EmptyString)))))))))))))))); gop = OpLT;
+    glit = (Zpos (XO (XO (XO (XO (XI XH)))))) } :: ({ gexpr = (String ((Ascii
+    (false, false, true, false, false, true, false, false)), (String ((Ascii
+    (false, false, false, false, true, true, false, false)), (String ((Ascii
     (true, true, false, true, true, false, true, false)), (String ((Ascii
     (true, true, false, false, true, true, false, false)), (String ((Ascii
     (true, false, true, true, true, false, true, false)), (String ((Ascii
     (true, true, false, true, true, false, true, false)), (String ((Ascii
     (true, false, false, true, true, true, false, false)), (String ((Ascii
     (true, false, true, true, true, false, true, false)),
-    EmptyString)))))))))))))); gop = OpGT; glit = (Zpos (XO (XI (XO (XO (XI
+    EmptyString)))))))))))))))); gop = OpGT; glit = (Zpos (XO (XI (XO (XO (XI
     XH)))))) } :: [])))))))
 
 (** val t_parser_types : (string * z) list **)
